@@ -12,1316 +12,2626 @@ Definition show_fres (r : fres) : string :=
   end.
 Definition check (rs : list rune) : string := digest (show_fres (format_res rs)).
 Definition full (rs : list rune) : string := show_fres (format_res rs).
-Eval vm_compute in ("<<<M1800>>>" ++ check (runes_of_ascii "  options	{
-
-    ArrayPrefixLenType=u16
-	; FixedStringPadFromLeft = true ;
-	JavaPackage =""com.example.msg""
-
-;GoPackage	=
-
-    ""msg""	;
-	GoModule  =
-""example.com/msg""
-	;
-} MetaData
-Meta {u32
-
-    SeqNum`sequence number
-more`
-, char[
-    8
-
-] Symbol `symbol
-more`
-
-, zchar[
-5 ]
-
-ZSym `z symbol
-more`,string Note  , 
-Symbol 
-AltSymbol
-
-    `alias of symbol`
-,f64	Price,} 
-packet	Inner 
-{
-	u8 
-a 
-,
-    i16 b,
-
-string c	,
-	}packet	Inner2	{ u8 a2
-, char[
-3 ] 
-c2 , } packet  Logon 
-{
-    u8
-x
-
-    , string	user
-, repeat
-u16
-    codes , 
+Eval vm_compute in ("<<<M4054>>>" ++ check (runes_of_ascii "options {
+    StringPrefixLenType = u8;
+    ArrayPrefixLenType = u64;
+    FixedStringPadFromLeft = true;
+    JavaPackage = ""com.example.msg"";
+    GoPackage = ""msg"";
+    GoModule = ""example.com/msg"";
 }
-	packet
-Logout { u16
-reason
-	,
 
-    }  packet Empty{
-    }
+MetaData Meta {
+    u32 SeqNum `sequence number
+        more`,
+    char[8] Symbol `symbol
+        more`,
+    zchar[5] ZSym `z symbol
+        more`,
+    string Note,
+    Symbol AltSymbol `alias of symbol`,
+    f64 Price,
+}
 
-root	packet
+packet Inner {
+    u8 a,
+    i16 b,
+    string c,
+}
 
-Msg{ u8 su8 
+packet Inner2 {
+    u8 a2,
+    char[3] c2,
+}
+
+packet Logon {
+    u8 x,
+    string user,
+    repeat u16 codes,
+}
+
+packet Logout {
+    u16 reason,
+}
+
+packet Empty {
+}
+
+root packet Msg {
+    u8 su8,
+    uint8 luint8,
+    u16 su16,
+    uint16 luint16,
+    u32 su32,
+    uint32 luint32,
+    u64 su64,
+    uint64 luint64,
+    i8 si8,
+    int8 lint8,
+    i16 si16,
+    int16 lint16,
+    i32 si32,
+    int32 lint32,
+    i64 si64,
+    int64 lint64,
+    f32 sf32,
+    float32 lfloat32,
+    f64 sf64,
+    float64 lfloat64,
+    char[6] fsplain,
+    @leftPad('0')
+    char[4] fs0,
+    @rightPad('0')
+    char[5] fs1,
+    @leftPad(' ')
+    char[6] fs2,
+    @rightPad(' ')
+    char[7] fs3,
+    @leftPad('\x00')
+    char[8] fs4,
+    @rightPad('\x00')
+    char[9] fs5,
+    @leftPad()
+    char[10] fs6,
+    @rightPad()
+    char[11] fs7,
+    zchar[7] fz,
+    @leftPad('0')
+    zchar[3] fzl0,
+    string s1 `doc`,
+    char[] s2,
+    Inner,
+    Sub {
+        u8 q,
+        string w,
+        Deep {
+            u16 z,
+            repeat i32 zs,
+        },
+    },
+    repeat u8 ru8,
+    repeat u16 ru16,
+    repeat u32 ru32,
+    repeat u64 ru64,
+    repeat i8 ri8,
+    repeat i16 ri16,
+    repeat i32 ri32,
+    repeat i64 ri64,
+    repeat f32 rf32,
+    repeat f64 rf64,
+    repeat string rstr,
+    repeat char[] rstr2,
+    repeat char[3] rfs,
+    repeat zchar[3] rfz,
+    repeat Inner2,
+    repeat Grp {
+        u8 k,
+        char[2] v,
+    },
+    SeqNum,
+    SeqNum seq2,
+    repeat SeqNum seqs,
+    Symbol,
+    AltSymbol alt,
+    ZSym,
+    Note,
+    repeat Symbol syms,
+    Price px,
+    u16 MsgType,
+    u32 BodyLen @lengthOf(Body),
+    match MsgType as Body {
+        1 : Logon,
+        [2, 3] : Logout,
+        7 : Logon,
+        9 : Empty,
+    },
+    u32 Checksum @calculatedFrom(""CRC32""),
+}")).
+Eval vm_compute in ("<<<M1104>>>" ++ check (runes_of_ascii "
+packet roots
+{
+char[] falsey @calculatedFrom(	""`tick`""
+) // c
+`{ , }` ,match
+    tag as	BodyLength{ // @lengthOf(
+""packet"" : T , 42 :f32a// a // b
+,255 : lengthOf , // " ++ [27880; 37322]%N ++ runes_of_ascii "
+} , BodyLength { Z9_ {
+    stringy
+{ metadata
+, }, zchar@lengthOf( // 50% %s
+x_y_z) ,match
+    // `tick` ""quote"" 'q'
+    lengthOf as float{
+10 :
+repeatCount ,
+} ,
+repeat string
+Pad `u8 x,` ,  }	,
+    charz { repeat
+    lengthOf
+    { zchar[
+007] f32a
+@calculatedFrom( ""it's""  )  `" ++ [28040; 24687; 31867; 22411]%N ++ runes_of_ascii "` , uint64
+    tag @calculatedFrom( ""packet""
+) // `tick` ""quote"" 'q'
+`" ++ [233]%N ++ runes_of_ascii "`
+, char[10 ]
+calculatedFrom
+    `tab	here`,
+    char[] Logon`" ++ [28040; 24687; 31867; 22411]%N ++ runes_of_ascii "` , }, i16 x_y_z
+`doc`
 ,
-
-    uint8 luint8
-	,
-    u16
-su16
-	,  uint16 
-luint16
-	,
-u32
-	su32,uint32 
-luint32
-, u64 su64  , 
-uint64
-luint64,
-i8
-si8
-
-    , 
-int8
-lint8
-	, i16	si16 ,int16
-lint16 
-,
-	i32	si32,int32 lint32
-, i64	si64 , int64 lint64
-	,
-f32 sf32
-
-,  float32 lfloat32
-
-    ,f64
-
-sf64  ,
-float64
-    lfloat64 
-,
-    char[
-
-    6  ]
-fsplain
-	,@leftPad( '0'
-) char[4
-]fs0 ,@rightPad
-    ('0'
-)
-char[5 ]
-fs1	,
-    @leftPad
-
-(
-' ' 
-)
-
-char[ 
-6
-
-    ]  fs2
-, @rightPad  ( ' '  ) char[	7  ] fs3
-
+// packet A { u8 x, }
+// trailing space 
+string
+// packet A { u8 x, }
+// `tick` ""quote"" 'q'
+u128
+,}	,
+} ,Foo	@lengthOf(o)
+, i32 int,
+options1	,
+} options{
+// " ++ [128512]%N ++ runes_of_ascii " emoji
+// trailing space 
+leftPad ='\x00' //x
+;  Foo
+    // " ++ [27880; 37322]%N ++ runes_of_ascii "
+    =  255	x =true
+; }packet
+x
+{
+    @calculatedFrom( """ ++ [28040; 24687]%N ++ runes_of_ascii """)repeat
+    u8
+/// triple
+//x
+As ,
+    repeat  char[42	]A , int8 o `two words`
+    // " ++ [27880; 37322]%N ++ runes_of_ascii "
     ,
-    @leftPad
-
-    (
-	'\x00' 
-)
-char[8 
-]fs4 ,  @rightPad(
-    '\x00'
-    )char[ 9
-
-]  fs5, @leftPad(
-) char[
-10
-
-] fs6
+@lengthOf(
+asx ) @lengthOf(  tag
+    )match
+trueish
+    as	lengthOf // packet A { u8 x, }
+{  0	: o,
+""{,}""
+    : // packet A { u8 x, }
+chars [ ""packet""  ]
+: A,
+""\" ++ [233]%N ++ runes_of_ascii """ : pack , [ ""\n"" ,
+10 , // `tick` ""quote"" 'q'
+""CRC32"" ,
+00, 007, 42 , 0123456789 ,""""  ] : stringy , ""packet"" : i64_ , } , repeatCount
+,
+    i32 zchar@lengthOf( Logon) `tab	here` ,zchar
+/// triple
+// a // b
+@calculatedFrom(""CRC32"" ) `u8 x,`
+    // packet A { u8 x, }
+    ,@lengthOf( lengthOf ) // c
+@rightPad // " ++ [128512]%N ++ runes_of_ascii " emoji
+( )Packet @calculatedFrom(""// no comment"")
+    // @lengthOf(
+    , @tag( 10 )
+// trailing space 
+// `tick` ""quote"" 'q'
+len`a\`,// " ++ [128512]%N ++ runes_of_ascii " emoji
+} packet _x { } root	packet uint8x { uint8
+    falsey
+`" ++ [233]%N ++ runes_of_ascii "` , zchar[
+007 ] stringy ,
+BodyLength float ,zchar[
+    1 ]roots ,uint8 Packet , repeat float64 repeatCount  , repeat char f32a`
+` ,
+    i32 a1 `crlf
+line`
+, } // @lengthOf(")).
+Eval vm_compute in ("<<<M3560>>>" ++ check (runes_of_ascii "
+root packet charz
+    {	@calculatedFrom(
+""" ++ [233]%N ++ runes_of_ascii "t" ++ [233]%N ++ runes_of_ascii """) 
+Foo
+x`u8 x,`
 
 ,
+rootA@lengthOf(
+leftPad) 
+,  zchar[	0123456789
 
-@rightPad( ) 
-char[
+]MetaDataX  `" ++ [28040; 24687; 31867; 22411]%N ++ runes_of_ascii "` ,
+@tag( 
+7)
+	packetx
+    // trailing space 
+  @calculatedFrom( ""CRC32""
 
-    11
-]
-	fs7 ,zchar[
+    )`it's`
+,
+	@lengthOf(  falsey )	repeat zchar[ 4294967296
 
+    ]	string_  ,	@lengthOf(options1
+) int
+{	int64 
+    //x
+		// 50% %s
+  	u
+	@calculatedFrom(
+    ""1"" 
+)
+`line1
+line2`
+    ,
+
+repeat zchar[ 00	/// triple
+	]	falsey
+    , char[]  stringy
+@calculatedFrom( ""it's"" ) 	 // @lengthOf(
+`crlf
+line` , // a // b
+    i16  A
+	,
+    } ,
+    @calculatedFrom(
+    ""`tick`""
+
+)f64
+BodyLength
+	@lengthOf( 	 /// triple
+
+	len)`crlf
+line`
+    ,
+}MetaData	msg_type 
+{ uint64 
+
+// trailing space 
+	  // a // b
+	roots
+    `100% of %d`, }	options
+    {packetx
+	= true }
+MetaData  uint8x
+{	}
+	root packet 
+
+// trailing space 
+//
+		crc{// trailing space 
+		char[
+// `tick` ""quote"" 'q'
+	// " ++ [27880; 37322]%N ++ runes_of_ascii "
+
+4294967296]	i64_
+	, 
+@leftPad
+(
+
+    '0'
+	) @lengthOf(  msg_type 
+)  repeat Foo
+`line1
+line2`
+, asx
+i64_ //	t
+
+`two words`,	@tag(
+    7
+
+    ) Packet
+    ,
+
+    repeat	// c
+    	i64
+
+    u8x
+	`say ""hi""` ,zchar[
 7
 
-    ] 
-fz  ,
-
-    @leftPad( '0'	)	zchar[	3
-    ] 
-fzl0 ,
-string
-s1	`doc`
-,
-    char[]
-s2
-    ,
-
-    Inner
-	, Sub
-
-{
-u8
-q,string  w  , 
-Deep{
-    u16 
-z
-
-    , repeat i32
-zs, }  ,
-
-}
-
-,repeat
-
-    u8
-    ru8 ,	repeat
-u16
-ru16
-	,  repeat
-u32
-ru32
-
-    ,
-
-repeat
-
-u64 ru64
-
-,repeat
-i8  ri8
-,
-    repeat
-i16
-ri16
-,repeat	i32
-ri32
-    ,
-	repeat i64
-	ri64 , repeat 
-f32
-    rf32
-
-,
-repeat
-f64 rf64,
-    repeat
-string
-rstr	, repeat
-char[]	rstr2
-    ,repeat  char[
-3
-	]
-	rfs ,
-repeat
-zchar[ 3] rfz ,repeat
-	Inner2,
-
-repeat  Grp	{ u8
-    k, 
-char[ 2
-] v
-
-    ,
-	}
-,
-
-SeqNum  ,
-SeqNum
-    seq2,
-	repeat
-    SeqNum	seqs,Symbol, AltSymbol
-	alt ,
-    ZSym ,
-	Note,
-    repeat
-Symbol
-	syms
-
-    ,
-
-Price px	, u16
-	MsgType
-
-,
-
-u32 BodyLen
-@lengthOf(  Body
-
-    ), match MsgType
-
-as 
-Body
-    {1	: 
-Logon
-    ,
-
-    [
-2
-,3] : Logout	,
-    7 :
-Logon	,
-9
-    : 
-Empty, } ,
-	u32 Checksum@calculatedFrom( 
-""CRC32""  )
-	,
-	}
-")).
-Eval vm_compute in ("<<<M1586>>>" ++ check (runes_of_ascii "
-// top
-
-  options  // c0
-{  // c1a
-    // c1b
-StringPrefixLenType
-    // c2
-		=  // c3a
-    // c3b
-u8// c4a
-		// c4b
-    ; ArrayPrefixLenType 	 // c6
-  =  // c7
-
-u32  // c8
-; 
-    // c9
-} packet
-    Quote	// c12
-    {	// c13
-
-  u32// c14a
-
-  // c14b
-    Ref
-
-    ,// c16a
-	// c16b
-  InNote74	{	// c18
-    u8 pad0  // c20a
-  // c20b
-      ,// c21
-    } 
-      // c22
-		, 
-}
-
-packet
-    // c25
-    Ack
-{
-
-repeat 
-string
-// c29
-	OrderId	// c30
-	, // c31
-  }// c32
-
-packet	// c33a
-	  // c33b
-  	Logout// c34
-  {
-	// c35
-	  zchar[	// c36a
-  // c36b
-
-7 
-
-    // c37
-  ] 
-
-// c38
-	venue
-	,  // c40a
-
-// c40b
-char[// c41
-	  12 	 // c42
-  ] 	 // c43a
-
-  // c43b
-	Px ,
-
-// c45
-	string// c46
-  count  // c47a
-		// c47b
-    , 
-    // c48
-    char[] // c49
-	  Tail // c50a
-  // c50b
-    ,// c51
-char[]Qty	// c53
-
-	, // c54
-
-Quote // c55
-    	,	// c56
-
-} 	 // c57
-
-	root  // c58a
-  // c58b
-	packet
-	Trade 
-    // c60
-  { 	 // c61a
-	// c61b
-  zchar[  
-      // c62
-  2  // c63a
-// c63b
-
-	]// c64a
-  	// c64b
-
-price 	 // c65
-
-	,
-
-    // c66
-  u32
-	// c67
-x
-	,	u32	// c70
-    lastPx 
-    // c71
-    @lengthOf( 	 // c72
-  Body // c73a
-      // c73b
-	) 
-	// c74
-,	// c75a
-    // c75b
-	match  // c76a
-  	// c76b
-		x	as
-
-    // c78
-Body// c79
-	{  // c80
-  	148:	// c82
-Ack	// c83a
-
-  // c83b
-    	,  // c84
-
-171	// c85a
-	// c85b
+    ]
+x_y_z , // `tick` ""quote"" 'q'
+match Foo as
+Pad 
+{  // c
+	[
+""abc"",
+"""" ]
 :
-// c86
-	  Quote// c87
-  , 15
-	// c89
-      :
-	// c90
-Logout 	 // c91a
-// c91b
-    , 
-    // c92
-    } 
-        // c93
-,// c94
-  } 
 
-// c95
-")).
-Eval vm_compute in ("<<<M232>>>" ++ check (runes_of_ascii "packet falsey { int64
-BodyLength , @tag( 4294967296) // packet A { u8 x, }
-@leftPad (
+options1
+    ,  ""a	b""  :  crc ,
+    42	:  rootA
+
+    ,// " ++ [128512]%N ++ runes_of_ascii " emoji
+  } // " ++ [128512]%N ++ runes_of_ascii " emoji
+
+  ,
+    @lengthOf(  // trailing space 
+
+	Header )	body
+	int  // 50% %s
+,
+    @tag(1
+
     )
-match _x as Foo
-//	t
-// packet A { u8 x, }
-{ ""\n"": asx
-// `tick` ""quote"" 'q'
-// `tick` ""quote"" 'q'
-[ ""{,}""
-,	4294967296, """ ++ [128512]%N ++ runes_of_ascii """//	t
-, """ ++ [28040; 24687]%N ++ runes_of_ascii """,
-""packet"", ""packet""
-    // " ++ [27880; 37322]%N ++ runes_of_ascii "
-    , ""x y"" ,
-// trailing space 
-// " ++ [128512]%N ++ runes_of_ascii " emoji
-7 ]	: x_y_z	, } , // `tick` ""quote"" 'q'
-A len`// not a comment`
-    ,
-    //
-    repeat char[]
-i64_ `crlf
-line` ,
-// trailing space 
-// trailing space 
-repeat char[] u `line1
-line2`	, tag {string metadata ,
-    } ,
-// " ++ [27880; 37322]%N ++ runes_of_ascii "
-// " ++ [128512]%N ++ runes_of_ascii " emoji
-char[3
-    ] falsey @lengthOf(
-    leftPad ) `crlf
-line`
-,  } root	packet
-MetaDataX {@lengthOf( //
-u8x )
-    match f32a as Header {[ ""a\""b""
-//x
-// `tick` ""quote"" 'q'
-,255]:  u8x , ""packet""
-:
-uint8x
-    ,""1""
-:
-_x , },
-    Packet `doc` , zchar[
-    3 // " ++ [128512]%N ++ runes_of_ascii " emoji
-] u128 @lengthOf( asx  ) ,
-    }  MetaData x/// triple
-{
-// `tick` ""quote"" 'q'
-// `tick` ""quote"" 'q'
-As  roots , char[
-10	] crc
-// " ++ [128512]%N ++ runes_of_ascii " emoji
-/// triple
-`{ , }` ,
-    BodyLength
-asx  `u8 x,` ,matchKey i8i8 , falsey pack `" ++ [233]%N ++ runes_of_ascii "`,leftPad metadata ,
-    }
-options { pack	= 0 tag
-= f32 i64_ =""abc""	;
-// " ++ [128512]%N ++ runes_of_ascii " emoji
-// " ++ [128512]%N ++ runes_of_ascii " emoji
-f32a=
-    true ; } packet Foo { }
+	@calculatedFrom(
+""" ++ [233]%N ++ runes_of_ascii "t" ++ [233]%N ++ runes_of_ascii """
+)char[ 255
+	]
+// 50% %s
+		charz  @lengthOf( 
+A )  ,  /// triple
+	uint64 
+      // @lengthOf(
+  /// triple
+  Packet
+@calculatedFrom( ""1""
+)
+`100% of %d` ,
+}
 ")).
-Eval vm_compute in ("<<<M1688>>>" ++ check (runes_of_ascii "options {
-    chars = ' '
-}
-
-root packet string_ {
-    i8i8 @lengthOf(Z9_),
-    match int as chars {
-        007 : body,
-        [42] : int,
-        ""`tick`"" : options1,
-    },
-    @leftPad(' ')
-    uint16 crc `it's`,// a // b
-    float64 packetx @lengthOf(crc),
-    @tag(4294967296)
-    match int as chars {
-        4294967296 : Foo,
-        1 : asx,
-        10 : Pad,
-        0123456789 : string_,
-        3 : T,
-        ""it's"" : As,
-    },
-    repeat float falsey `say ""hi""`,
-    match uint8x as zchar {
-        ""// no comment"" : body,
-        0123456789 : crc,
-        ""{,}"" : o,
-    },
-    repeat o chars,
-    uint32 As `doc`,
-    repeat trueish {
-        char[7] i64_ `{ , }`,
-    },
-}
-
-packet Packet {
-    zchar[0123456789] matchKey @lengthOf(chars),
-    x {
-        u64 o,
-    },
-    zchar[1] MetaDataX @calculatedFrom(""""),
-    char[] lengthOf @calculatedFrom(""a\""b"") `
-    `,
-    @rightPad(' ')
-    //	t
-    uint16 len `a\`,
-    @lengthOf(tag)
-    char[65535] pack ``,
-}")).
-Eval vm_compute in ("<<<M1992>>>" ++ check (runes_of_ascii "options {
-    T = ' '
-}
-
-MetaData Pad {
-    string_ u128,
-    u64 uint8x `two words`,
-    int8 repeatCount,
-}
-
-packet len {
-    Packet `
-    `,
-    @calculatedFrom(""a\""b"")
-    zchar[42] rootA,
-    @calculatedFrom(""packet"")
-    @calculatedFrom(""\n"")
-    Packet @calculatedFrom(""\" ++ [233]%N ++ runes_of_ascii """) `" ++ [28040; 24687; 31867; 22411]%N ++ runes_of_ascii "`,
+Eval vm_compute in ("<<<M4172>>>" ++ check (runes_of_ascii "packet msg_type {
+    repeat stringy Header ``,
     @leftPad('\x00')
-    @leftPad()
-    @rightPad()
-    repeat string_ {
-        match asx as rootA {
-            [""`tick`"", 65535] : falsey,
-        },
-        trueish,
-        char Z9_ `// not a comment`,
-        Packet Logon `{ , }`,
+    repeat leftPad,
+    repeat f32a,
+    @calculatedFrom(""it's"")
+    @tag(255)
+    match roots as trueish {
+        7 : tag,
     },
+    repeat zchar[0] repeatCount,
+    string f32a,
+    string body,
+    @calculatedFrom("""")
+    uint64 f32a,
+}
+
+packet asx {
+    leftPad ``,
+    @rightPad('0')
+    //
+    // `tick` ""quote"" 'q'
+    int8 leftPad,
+    @rightPad('0')
+    asx @lengthOf(falsey),
+    @tag(00)
+    // `tick` ""quote"" 'q'
+    u32 pack,
+    @tag(007)
+    repeat stringy repeatCount `" ++ [28040; 24687; 31867; 22411]%N ++ runes_of_ascii "`,
+    @lengthOf(roots)
+    u16 pack @lengthOf(roots),
+    @calculatedFrom(""1"")
     @tag(1)
-    match x as pack {
-        1 : stringy,
-        [42] : x,
+    match calculatedFrom as pack {
+        ""a\\"" : Logon,
+        [""" ++ [128512]%N ++ runes_of_ascii """] : u8x,
+        1 : calculatedFrom,
+        """ ++ [128512]%N ++ runes_of_ascii """ : Z9_,
+        0 : _x,
     },
-    repeat i8 u8x,
-    @calculatedFrom(""packet"")
-    string_ @lengthOf(rootA),
-    falsey @lengthOf(x),
+    f32 Header,
+}
+
+packet asx {
+    @tag(00)
+    @rightPad('0')
+    @calculatedFrom(""a\\"")
+    int64 leftPad `u8 x,`,
+    repeat stringy `two words`,
+    @lengthOf(len)
+    @tag(7)
+    i16 int,
+    @lengthOf(repeatCount)
+    i8i8 @lengthOf(roots) `" ++ [28040; 24687; 31867; 22411]%N ++ runes_of_ascii "`,
+    string int @calculatedFrom(""\n"") `100% of %d`,
+    repeat i8i8 rootA `two words`,
+    T {
+        roots @lengthOf(o),
+        // a // b
+    },
+    Pad,
+    @lengthOf(As)
+    f32 options1,
+}
+
+MetaData a1 {
+    zchar[255] tag `say ""hi""`,
 }
 
 options {
-}
-
-root packet u {
-    @lengthOf(x_y_z)
-    u @calculatedFrom("""") `two words`,
+    BodyLength = 0123456789
 }")).
-Eval vm_compute in ("<<<M1550>>>" ++ check (runes_of_ascii "options {
-    LittleEndian = false;
-    StringPrefixLenType = u8;
-    ArrayPrefixLenType = u8;
-    FixedStringPadFromLeft = true;
-    FixedStringPadChar = ' ';
-}
-packet Trade {
-    zchar[2] Side2,
-    i8 seqNo,
-}
-packet Party {
-    uint32 price,
-}
-packet Ack {
-    @rightPad('\x00') char[6] x,
-    repeat char[4] Flags,
-    zchar[9] f1,
-}
-packet Cancel {
-    Ack,
-}
-packet Heartbeat {
-    string Px,
-    string Acct,
-    f64 Side2,
-    InQty24 {
-        i16 seqNo,
-        repeat i32 Flags,
-    },
-}
-root packet Logon {
-    Trade,
-    i64 venue,
-    u32 x,
-    u8 seqNo,
-    match seqNo as Body {
-        [1, 164] : Ack,
-        31 : Cancel,
-        23 : Heartbeat,
-        64 : Party,
-    },
+Eval vm_compute in ("<<<M4129>>>" ++ check (runes_of_ascii "root  packet 
+    // " ++ [27880; 37322]%N ++ runes_of_ascii "
+	// `tick` ""quote"" 'q'
+x  { } 
+packet
+trueish  {@rightPad (
+    ' ' 
+)
+repeat
+
+    u16
+	As `tab	here`  , }
+    root
+
+    packet
+
+    Packet
+
+    { falsey
+    @calculatedFrom(
+""" ++ [28040; 24687]%N ++ runes_of_ascii """)//	t
+    ,@lengthOf(
+u128
+
+    )  repeat
+	zchar[
+	42
+    ]
+calculatedFrom  `it's`	,
+
+    u64  options1@lengthOf(repeatCount
+
+) , @rightPad ( 
+' '
+    )
+@calculatedFrom(
+
+""x y""
+
+    )
+    @rightPad	(
+'\x00'
+
+    )
+	msg_type
+
+    { string A
+	@calculatedFrom(
+    ""`tick`"")	// trailing space 
+	,  i16
+
+Pad @calculatedFrom(
+
+""" ++ [233]%N ++ runes_of_ascii "t" ++ [233]%N ++ runes_of_ascii """  )
+`line1
+line2`  ,
+	float64 roots
+    @lengthOf(body 	 // `tick` ""quote"" 'q'
+
+),} ,  @tag( 	 // 50% %s
+
+007
+)  f32
+
+BodyLength
+
+    @lengthOf( float)
+,
+	Pad	Foo
+, char[] chars `it's`
+
+, @calculatedFrom( """ ++ [233]%N ++ runes_of_ascii "t" ++ [233]%N ++ runes_of_ascii """ )  Pad { repeat BodyLength
+
+uint8x
+
+    ,
+    match Pad
+    as
+
+Foo
+
+{""packet""
+    :
+    i64_ , [ 4294967296
+    , ""{,}""
+
+    ] :
+BodyLength 10 :
+
+repeatCount  ,
+	[0123456789
+	,	3, 42
+
+    ,
+	""\n"" , ""x y"" ]
+
+: Logon,
+
+[
+
+10,	""`tick`""
+
+,
+	0123456789
+	]: tag
+	, 
+42
+    : trueish }
+	, repeat
+
+    //
+
+	// trailing space 
+	zchar[
+
+    4294967296
+    ] Foo	`it's`
+	,
+
+    }
+,  }
+packet float 
+{
+
+@tag( 1 )	u64 options1@calculatedFrom(	""a\""b""
+
+) ,
+    }")).
+Eval vm_compute in ("<<<M806>>>" ++ check (runes_of_ascii "packet charz
+// @lengthOf(
+//
+{ char[	3] Packet
+@lengthOf(
+    pack) ,
+    match falsey
+    as Packet{[""abc""
+,0 // `tick` ""quote"" 'q'
+,
+    ""x y""
+//x
+// " ++ [128512]%N ++ runes_of_ascii " emoji
+]:  crc,
+    ""a\""b"" :leftPad , ""a\""b"": options1 ,
+    """ ++ [28040; 24687]%N ++ runes_of_ascii """: repeatCount , 65535	:x_y_z ,} , msg_type {
+u64 Logon , stringy @calculatedFrom(
+    ""it's""  )
+`crlf
+line` , },
+//x
+//
+@lengthOf( rootA ) char[42 // trailing space 
+]
+rootA `line1
+line2` , }
+MetaData rootA// trailing space 
+{
+}packet MetaDataX
+    {	@lengthOf( packetx // @lengthOf(
+)As
+`100% of %d`	, @lengthOf( matchKey) repeat Logon// c
+{  MetaDataX @lengthOf( trueish ) ,
+    uint8
+    asx
+@calculatedFrom(""\" ++ [233]%N ++ runes_of_ascii """
+), metadata
+    //	t
+    { uint8x ,//
+match Logon
+    as string_ { // 50% %s
+[ 42 , 0] : float , },  } ,
+uint16 falsey // " ++ [27880; 37322]%N ++ runes_of_ascii "
+@lengthOf(matchKey
+    )  `line1
+line2`,
+},
+    @lengthOf( u8x	) char[ 7// a // b
+] asx
+    @lengthOf( // a // b
+Logon )`" ++ [233]%N ++ runes_of_ascii "`
+,
+repeat Packet crc ,  @tag(  10 ) @leftPad ( ' ' )  @lengthOf(
+As
+    )
+    Foo  chars ,
+@calculatedFrom( """" ) i64 u /// triple
+, string
+f32a
+`it's` ,float64 x`" ++ [28040; 24687; 31867; 22411]%N ++ runes_of_ascii "`
+    ,u16 roots ,
+/// triple
+//	t
+} options { int = 4294967296 u8x
+= false ;
 }
 ")).
-Eval vm_compute in ("<<<M1610>>>" ++ check (runes_of_ascii "MetaData As {
-}
+Eval vm_compute in ("<<<M4145>>>" ++ check (runes_of_ascii "  packet f32a
+	{  @leftPad
+(
 
-packet float {
-    // @lengthOf(
-    options1 Pad `// not a comment`,
-    uint16 As `line1
-        line2`,
-    float32 stringy @calculatedFrom(""`tick`"") `" ++ [233]%N ++ runes_of_ascii "`,
-    repeat Packet {
-        zchar[3] T @calculatedFrom(""x y""),
-        char[7] asx @lengthOf(tag),
-        //
-        int64 charz `u8 x,`,
-    },
-    uint32 len,
-    @tag(0123456789)
-    Foo packetx `// not a comment`,
-    char[] trueish @lengthOf(rootA),
-    @leftPad('0')
-    repeat x_y_z `{ , }`,
-    i64 u128,
-}
-
-packet msg_type {
-    char[] i8i8 `doc`,
-    string trueish @calculatedFrom(""""),
-    char[7] string_ `say ""hi""`,
-}")).
-Eval vm_compute in ("<<<M1580>>>" ++ check (runes_of_ascii "// top
-packet // c0
-Sub // c1a
-  // c1b
-{
-    // c2
-u8 a ,
-    // c5
-@calculatedFrom( // c6a
-  // c6b
-""CRC16"" )
-    // c8
-u16 // c9
-SubSum // c10
-, }
-    // c12
-root packet // c14
-Frame // c15
-{
-    // c16
-u16 // c17a
-  // c17b
-MsgType
-    // c18
-, // c19
-u16
-    // c20
-BodyLen @lengthOf(
-    // c22
-Body // c23a
-  // c23b
-) , Sub // c26a
-  // c26b
-Body
-    // c27
-,
-    // c28
-string // c29
-note , // c31
-@calculatedFrom( ""CRC16"" // c33
-) u16 // c35a
-  // c35b
-Checksum // c36
-,
-    // c37
-u8 tail
-    // c39
-,
-    // c40
-} ")).
-Eval vm_compute in ("<<<M1879>>>" ++ check (runes_of_ascii "  packet
-	string_
-	{ @lengthOf(
-    int )BodyLength 
-u8x	,  i64_ `tab	here`
-        // " ++ [128512]%N ++ runes_of_ascii " emoji
-	// @lengthOf(
-  ,
-	char[
-3
-
-]	/// triple
-    string_
-
-,repeat
-
-    leftPad `" ++ [28040; 24687; 31867; 22411]%N ++ runes_of_ascii "`,
-repeat  int32
-/// triple
-
+    '0'
 // `tick` ""quote"" 'q'
-  	BodyLength
-    `u8 x,` , 	 // `tick` ""quote"" 'q'
-  	@tag(	4294967296 )
-    BodyLength 
+    )	repeat
+    string
+	MetaDataX	`
+` ,
+    @tag(
+	4294967296	)match x //
+  as
+
+    Foo
+{ 
+""abc""  :  /// triple
+
+	A  ,
+    [ 3 
+, 65535
+
+// " ++ [128512]%N ++ runes_of_ascii " emoji
+
+]:
+	lengthOf ,
+
+[
+255
+    ]
+
+    :
+
+BodyLength  
+  // packet A { u8 x, }
+  }
+
+    , @lengthOf(
+	Packet  )
+    //	t
+    // c
+
+	@calculatedFrom(
+
+    ""abc""
+)@tag(
+    0123456789
+) i32 uint8x
+,rootA `tab	here`,
+    match
+	MetaDataX as
+int{
+
+    [3
+
+    ]: As , 
+}
+    ,
+    repeat uint8 
+u128
+,	} MetaData
+    metadata  {  i16  options1 	 // " ++ [128512]%N ++ runes_of_ascii " emoji
+
+  ,u128 metadata 
 `crlf
 line`
-    , 
-msg_type
-Packet
-`" ++ [233]%N ++ runes_of_ascii "` ,float32
-    string_	// trailing space 
-  	@calculatedFrom(
-	""""
-)	,
-asx  int`it's`  ,
-}
-")).
-Eval vm_compute in ("<<<M2082>>>" ++ check (runes_of_ascii "root packet x {
-    @calculatedFrom(""a\\"")
-    zchar[42] float @calculatedFrom(""a\""b"") `
-        `,
-}
 
-MetaData o {
-    int8 BodyLength,
-    string len,
-    string len,
-    float falsey,
-    T float,
+,
+    char[
+10
+]  BodyLength
+    `u8 x,`,  zchar[
+10 
+] u8x
+`u8 x,` , As
+	x
+    ,
 }
+	MetaData a1 { }
+    options
 
-MetaData pack {
-    /// triple
-    charz o `// not a comment`,
-    float64 f32a `tab	here`,
-    int32 u8x `// not a comment`,
-    char[10] a1,
-    float32 options1,
-}// `tick` ""quote"" 'q'")).
-Eval vm_compute in ("<<<M1454>>>" ++ check (runes_of_ascii "// top
+    { Packet
+
+    =
+    i32 ;	a1
+    =
+' '  ;  // `tick` ""quote"" 'q'
+  	o = ""a	b""
+trueish
+	=  42	zchar
+
+    = ' '
+}	options { //
+x_y_z
+	=
+
+    ' '
+	;
+
+    string_
+
+    = int64
+;	lengthOf
+        /// triple
+  	//	t
+  	=
+    zchar[ 
+4294967296
+
+    ] // `tick` ""quote"" 'q'
+      ; /// triple
+		calculatedFrom =	' ' ;
+packetx  =zchar[ 3 ];
+	}")).
+Eval vm_compute in ("<<<M348>>>" ++ check (runes_of_ascii "  packet metadata	{ char[ // trailing space 
+4294967296
+] a1 // " ++ [27880; 37322]%N ++ runes_of_ascii "
+, } packet BodyLength
+    {
+    trueish , char[ 00
+]
+    Logon // " ++ [128512]%N ++ runes_of_ascii " emoji
+@lengthOf(
+    As
+// " ++ [128512]%N ++ runes_of_ascii " emoji
+// 50% %s
+) , repeat uint32 u8x // 50% %s
+,
+    char[] len
+    @lengthOf( /// triple
+i8i8 )  , packetx chars,
+    // packet A { u8 x, }
+    string Packet@calculatedFrom(	""a	b""),match
+len  as msg_type { [
+42]	: x , }  ,
+chars {
+u128 asx , }	, i32 As  @calculatedFrom(""a	b"" )
+    , repeat repeatCount
+    // " ++ [27880; 37322]%N ++ runes_of_ascii "
+    { repeat u8x {
+    char[]_x
+`crlf
+line` ,
+    match f32a as//	t
+i8i8  { [/// triple
+007	,
+4294967296 ,  """ ++ [28040; 24687]%N ++ runes_of_ascii """ , // packet A { u8 x, }
+""a	b"" // packet A { u8 x, }
+,""// no comment"" ,""a\""b"" ,
+// trailing space 
+//
+""CRC32"" , 7]:Foo 0123456789 :
+    Header
+    ,""it's"" : u 65535 :	Foo , 65535 :
+/// triple
+//x
+stringy
+    , 255  : f32a ,//	t
+}
+, match
+A
+    //	t
+    as u128 { 10 :chars
+    ""{,}"" :i64_""\n""
+    : //	t
+o , ""{,}"" :	x_y_z // 50% %s
+,[ 0123456789, """ ++ [28040; 24687]%N ++ runes_of_ascii """] :	a1 , }
+,
+} ,
+    A @lengthOf(
+    // " ++ [27880; 37322]%N ++ runes_of_ascii "
+    u8x  ) , },	}")).
+Eval vm_compute in ("<<<M3421>>>" ++ check (runes_of_ascii "// top
 packet
     // c0
-B // c1a
+A // c1a
   // c1b
-{ u8 // c3
-a // c4a
+{ // c2a
+  // c2b
+u8 a // c4a
   // c4b
-, }
-    // c6
-root // c7
-packet
-    // c8
-P
+, // c5
+} packet
+    // c7
+B {
     // c9
-{ // c10
-u8 // c11
-K // c12
-,
-    // c13
-u8
+u16 b // c11a
+  // c11b
+, } // c13a
+  // c13b
+packet
     // c14
-L // c15a
-  // c15b
-@lengthOf( Body
-    // c17
-) ,
-    // c19
-match
-    // c20
-K as Body {
-    // c24
-1 // c25
-: B ,
-    // c28
-} // c29a
-  // c29b
+C {
+    // c16
+u32 c // c18
+, // c19a
+  // c19b
+} // c20a
+  // c20b
+root
+    // c21
+packet
+    // c22
+M // c23a
+  // c23b
+{ u16 // c25a
+  // c25b
+Kc ,
+    // c27
+u16 // c28a
+  // c28b
+Kb // c29
 , // c30
-}
+u16
     // c31
-")).
-Eval vm_compute in ("<<<M1709>>>" ++ check (runes_of_ascii "MetaData T {
-    Foo lengthOf,
-    string packetx `// not a comment`,
-    zchar[0] metadata `crlf
-        line`,
-    x string_ `line1
-        line2`,
-}
-
-packet repeatCount {
-    char[255] A @calculatedFrom(""a\\""),
-    float32 BodyLength @lengthOf(_x) `doc`,
-    char[] trueish @calculatedFrom(""packet""),
-}")).
-Eval vm_compute in ("<<<M61>>>" ++ check (runes_of_ascii "options
-{  chars =
-    /// triple
-    char; o
-    /// triple
-    = true u128 =
-    ""x y"" ;} packet	chars
-    { @calculatedFrom( ""\n"" )repeat f64 packetx  ,  @tag(4294967296 ) float32 Header
-, zchar[
-007
-]float `// not a comment`
-    ,
-    }
-options  {
-stringy = zchar[ 7 ] ;}")).
-Eval vm_compute in ("<<<M534>>>" ++ check (runes_of_ascii "root packet tag { }  packet MetaDataX{char[007	]
-// c
-/// triple
-asx asx  @calculatedFrom( ""a\""b""
-) `say ""hi""`// " ++ [27880; 37322]%N ++ runes_of_ascii "
-,  @tag(4294967296 )
-    char[1//x
-] packetx @calculatedFrom(""a\""b""
-    ) ,
-// " ++ [128512]%N ++ runes_of_ascii " emoji
-// a // b
-@calculatedFrom(""" ++ [233]%N ++ runes_of_ascii "t" ++ [233]%N ++ runes_of_ascii """  ) repeat pack // " ++ [27880; 37322]%N ++ runes_of_ascii "
+Ka
+    // c32
+, // c33a
+  // c33b
+match
+    // c34
+Kc as X
+    // c37
+{ // c38a
+  // c38b
+9 // c39
+: // c40
+A // c41a
+  // c41b
+, // c42
+10 : // c44a
+  // c44b
+B // c45
+, // c46a
+  // c46b
+} // c47a
+  // c47b
+, // c48
+match Kb // c50a
+  // c50b
+as Y { 2 // c54a
+  // c54b
+: // c55a
+  // c55b
+C , // c57
+1 // c58
+: // c59
+A
+    // c60
+, } // c62
 ,
-    } // c")).
-Eval vm_compute in ("<<<M2054>>>" ++ check (runes_of_ascii "options {
+    // c63
+match // c64
+Ka // c65
+as // c66a
+  // c66b
+Z
+    // c67
+{
+    // c68
+1 : // c70
+B , // c72a
+  // c72b
+} // c73a
+  // c73b
+, // c74
+A
+    // c75
+, B // c77a
+  // c77b
+, C // c79
+, // c80
+} // c81
+")).
+Eval vm_compute in ("<<<M1078>>>" ++ check (runes_of_ascii "options {	} root
+packet float {
+    // 50% %s
+    @tag( 3
+) repeat char[
+// " ++ [128512]%N ++ runes_of_ascii " emoji
+// @lengthOf(
+65535
+]  Logon `" ++ [28040; 24687; 31867; 22411]%N ++ runes_of_ascii "`	,
+int8
+    asx ,uint64
+matchKey // @lengthOf(
+, repeat zchar[ 0123456789
+] charz ,@rightPad( ) match
+    rootA as o { ""abc"" : Header, ""a	b"" :BodyLength""a	b"" :/// triple
+repeatCount """ ++ [28040; 24687]%N ++ runes_of_ascii """ :
+// packet A { u8 x, }
+// `tick` ""quote"" 'q'
+_x ,  }, @lengthOf( body  )  match u8x
+    as u128{0123456789
+    // @lengthOf(
+    : lengthOf/// triple
+,
+    ""abc"": A	"""": Pad , 42	: i8i8 ,""a\""b"":  uint8x	4294967296: u128 , } , @lengthOf( int ) char[] matchKey
+    , uint16
+// " ++ [27880; 37322]%N ++ runes_of_ascii "
+// @lengthOf(
+pack`two words`, // trailing space 
+} options {
+    body =//	t
+string ; repeatCount
+=
+""it's""
+BodyLength = i64 Foo = ""packet"" ;
+lengthOf=
+    u16 }MetaData Pad { MetaDataX o
+    `a\` , char u,
+    zchar[
+255 ] o
+, }// c
+options //x
+{trueish=
+'0' ;
+    rootA	= int64 ;
+// trailing space 
+// " ++ [128512]%N ++ runes_of_ascii " emoji
+u =""\n"" }")).
+Eval vm_compute in ("<<<M1054>>>" ++ check (runes_of_ascii "
+packet f32a {  @leftPad
+    (  '0'
+    // `tick` ""quote"" 'q'
+    ) repeat string
+MetaDataX`
+` ,@tag( 4294967296 ) match  x//
+as
+Foo { ""abc""  : /// triple
+A ,
+    [  3  ,65535
     // " ++ [128512]%N ++ runes_of_ascii " emoji
-    x = i8
-    BodyLength = '\x00';
-    options1 = zchar[42];
-    msg_type = ""a	b""
-    x_y_z = int64;
+    ] :lengthOf
+,[ 255] :BodyLength
+    // packet A { u8 x, }
+    } ,@lengthOf( Packet
+)
+//	t
+// c
+@calculatedFrom( ""abc"" )
+    @tag( 0123456789 )
+i32 uint8x ,	rootA	`tab	here` ,match MetaDataX as int{ [ 3 ] :
+As ,
+} ,
+repeat uint8 u128 , } MetaData  metadata{ i16 options1 // " ++ [128512]%N ++ runes_of_ascii " emoji
+, u128 metadata `crlf
+line` ,	char[
+10]
+BodyLength`u8 x,`, zchar[ 10] u8x
+    `u8 x,` , As	x	,}
+    MetaData a1{}options { Packet =i32 ; a1= ' ' ;// `tick` ""quote"" 'q'
+o = ""a	b""  trueish = 42
+    zchar =
+    ' '
+} options{//
+x_y_z
+= ' ' ; string_ =int64 ;lengthOf
+/// triple
+//	t
+= zchar[ 4294967296 ] // `tick` ""quote"" 'q'
+; /// triple
+calculatedFrom = ' ' ; packetx= zchar[3]; }
+")).
+Eval vm_compute in ("<<<M4415>>>" ++ check (runes_of_ascii "MetaData calculatedFrom {
 }//x
 
 options {
-    pack = ""a\\""
-    matchKey = true
-    Packet = ""abc""//	t
-    falsey = '\x00';
+    stringy = ' ';
 }
 
-root packet charz {
-    body `doc`,
-}// c")).
-Eval vm_compute in ("<<<M530>>>" ++ check (runes_of_ascii "root packet tag { }  packet MetaDataX{char[007	asx
-// c
-/// triple
-]  @calculatedFrom( ""a\""b""
-) `say ""hi""`// " ++ [27880; 37322]%N ++ runes_of_ascii "
-,  @tag(4294967296 )
-    char[1//x
-] packetx @calculatedFrom(""a\""b""
-    ) ,
-// " ++ [128512]%N ++ runes_of_ascii " emoji
-// a // b
-@calculatedFrom(""" ++ [233]%N ++ runes_of_ascii "t" ++ [233]%N ++ runes_of_ascii """  ) repeat pack // " ++ [27880; 37322]%N ++ runes_of_ascii "
-,
-    } // c")).
-Eval vm_compute in ("<<<M583>>>" ++ check (runes_of_ascii "root packet tag { }  packet MetaDataX{char[007	]
-// c
-/// triple
-asx  @calculatedFrom( ""a\""b""
-) `say ""hi""`// " ++ [27880; 37322]%N ++ runes_of_ascii "
-,  @tag(4294967296 )
-    char[//x
-] packetx @calculatedFrom(""a\""b""
-    ) ,
-// " ++ [128512]%N ++ runes_of_ascii " emoji
-// a // b
-@calculatedFrom(""" ++ [233]%N ++ runes_of_ascii "t" ++ [233]%N ++ runes_of_ascii """  ) repeat pack // " ++ [27880; 37322]%N ++ runes_of_ascii "
-,
-    } // c")).
-Eval vm_compute in ("<<<M563>>>" ++ check (runes_of_ascii "root packet tag { }  packet MetaDataX{char[007	]
-// c
-/// triple
-asx  @calculatedFrom( ""a\""b""
-) `say ""hi""`// " ++ [27880; 37322]%N ++ runes_of_ascii "
-,  4294967296 )
-    char[1//x
-] packetx @calculatedFrom(""a\""b""
-    ) ,
-// " ++ [128512]%N ++ runes_of_ascii " emoji
-// a // b
-@calculatedFrom(""" ++ [233]%N ++ runes_of_ascii "t" ++ [233]%N ++ runes_of_ascii """  ) repeat pack // " ++ [27880; 37322]%N ++ runes_of_ascii "
-,
-    } // c")).
-Eval vm_compute in ("<<<M2017>>>" ++ check (runes_of_ascii "
-packet
-	Sub {  u8  a,
-
-    @calculatedFrom(	""CRC16""
-) u16 SubSum,  }
-	root  packet  Frame{
-u16 MsgType
-	,	u16
-    BodyLen
-    @lengthOf( Body
-)
-    , 
-Sub
-
-Body ,
-string
-	note,@calculatedFrom(  ""CRC16"" ) 
-u16
-Checksum  ,u8
-
-tail ,
-    } ")).
-Eval vm_compute in ("<<<M1540>>>" ++ check (runes_of_ascii "options {
-    StringPrefixLenType = u16;
-    FixedStringPadChar = ' ';
-}
-packet Party {
-}
-packet Quote {
-    repeat Party,
-    repeat char[2] f1,
-}
-packet Logon {
-}
-root packet Cancel {
-    uint16 x,
-    zchar[6] f1,
-}
-")).
-Eval vm_compute in ("<<<M1852>>>" ++ check (runes_of_ascii "
-MetaData msg_type
-	{
-Packet 
-	    // @lengthOf(
-    // trailing space 
-
-int
-,
-	char[3
-	]
-Foo	`// not a comment` 
-
-// `tick` ""quote"" 'q'
-
-  , zchar[ 7
-
-    ]uint8x  ,	leftPad
-	crc `
-`
-    , }
-")).
-Eval vm_compute in ("<<<M1605>>>" ++ check (runes_of_ascii "MetaData 
-msg_type {  }
-	root packet	T {	@rightPad	( )repeat
-
-char[  3
-
-] x_y_z  ,
-@lengthOf(
-
-roots )
-string
-    i64_@lengthOf( u8x  // a // b
-    )  `// not a comment`
-
-    ,  }")).
-Eval vm_compute in ("<<<M1302>>>" ++ check (runes_of_ascii "// top
-MetaData // c0
-body
-    // c1
-{
-    // c2
-i64
-    // c3
-pack `it's`
-    // c5
-, } packet stringy // c9
-{ // c10
-int16
-    // c11
-calculatedFrom ,
-    // c13
-} // c14
-")).
-Eval vm_compute in ("<<<M467>>>" ++ check (runes_of_ascii "packet
-    // `|tick` ""quote"" 'q'
-    crc
-// packet A { u8 x, }
-//	t
-{
-u32 a1 ,
-    // trailing space 
-    roots
-charz //
-`two words`,	}
-    MetaData int {
-} /// triple")).
-Eval vm_compute in ("<<<M688>>>" ++ check (runes_of_ascii "root packet len // trailing space 
-{
-// " ++ [27880; 37322]%N ++ runes_of_ascii "
-//	t
-char[10
-] metadata	@lengthOf( o ) `crlf
-line`,
-    @rightPad
-( ' '
-) string
-    Header @calculatedFrom( ""a\\""
-    )( }
-")).
-Eval vm_compute in ("<<<M249>>>" ++ check (runes_of_ascii "
-root packet /// triple
-Foo { int32 tag
-    `doc` , char[0
-    ]
-    u8x`u8 x,`
-, charz charz
-    , @rightPad(' ')@tag( 3 ) @rightPad	('0' )
-repeat
-int16	float ,}
-")).
-Eval vm_compute in ("<<<M439>>>" ++ check (runes_of_ascii "packet
-    // `tick` ""quote"" 'q'
-    crc
-// packet A { u8 x, }
-//	t
-{
-u32 a1 ,
-    // trailing space 
-    roots
-charz //
-`two words`,	}
-     int {
-} /// triple")).
-Eval vm_compute in ("<<<M1847>>>" ++ check (runes_of_ascii "
-root  packet matchKey
-
-{ zchar[ 3
-	] pack
-	@calculatedFrom(
-    ""a	b"")
-
-`doc`
-
-    // c
-
-, }
-options 
-{
-
-    } 
-MetaData A  {
-int8 msg_type , 
-}
-")).
-Eval vm_compute in ("<<<M1831>>>" ++ check (runes_of_ascii "
-packet	B  {
-
-u8 
-a ,  } root
-packet P
-
-{ u8
-    K
-    , u8
-L
-    @lengthOf(
-
-    Body	)
-,
-
-    match
-
-K
-as
-Body	{ 1
-: 
-B
-
-,
-	}
-,  } ")).
-Eval vm_compute in ("<<<M2027>>>" ++ check (runes_of_ascii "packet Foo {
-}
-
-packet MetaDataX {
-    char[] Logon,
-}
-
-root packet MetaDataX {
-    match Z9_ as zchar {
-        7 : zchar,
+packet tag {
+    @tag(65535)
+    repeat x_y_z i8i8,
+    pack,
+    // " ++ [27880; 37322]%N ++ runes_of_ascii "
+    float @lengthOf(trueish),
+    match metadata as o {
+        7 : charz,
+        [""\n"", ""// no comment"", ""`tick`"", 7, ""x y""] : body,
+        //x
+        [
+            ""a\""b"", 0123456789, 0123456789, ""\n"", 10,
+            ""it's"", ""{,}"", """ ++ [28040; 24687]%N ++ runes_of_ascii """
+        ] : Header,
+        // a // b
+        //x
+        4294967296 : i64_,
+        """" : stringy,
     },
+    match rootA as zchar {
+        0 : a1,
+        0 : len,
+        [1, 0123456789, ""a\\"", ""abc"", """ ++ [128512]%N ++ runes_of_ascii """] : matchKey,
+        ""CRC32"" : Z9_,
+    },
+    @tag(7)
+    string pack @calculatedFrom(""x y"") `say ""hi""`,// " ++ [27880; 37322]%N ++ runes_of_ascii "
+    @lengthOf(packetx)
+    //	t
+    i8i8,
+    char[42] u8x,
+}
+
+root packet a1 {
+    @rightPad('0')
+    repeat i16 body,
 }")).
-Eval vm_compute in ("<<<M1904>>>" ++ check (runes_of_ascii "packet Logon {
-    stringy crc `crlf
-    line`,
-    T @calculatedFrom(""a\""b"") `u8 x,`,
+Eval vm_compute in ("<<<M3825>>>" ++ check (runes_of_ascii "packet body {
+    char[3] u,
+    zchar[007] lengthOf @lengthOf(rootA),
+    @leftPad('0')
+    x {
+        match packetx as packetx {
+            [10] : repeatCount,
+            // a // b
+            // packet A { u8 x, }
+            [""1"", ""a\\""] : rootA,
+        },
+    },
+    Logon {
+        trueish {
+            repeatCount i64_ `tab	here`,
+            i64_ {
+                repeat Logon asx,
+            },//	t
+            u64 chars `say ""hi""`,// trailing space 
+            int64 trueish,
+        },
+        _x Foo,
+        repeat uint64 int `doc`,
+        int64 chars,
+    },
+    repeat char[0] Foo,
+    match trueish as _x {
+        007 : falsey,
+        // `tick` ""quote"" 'q'
+        255 : u,
+        1 : msg_type,
+        10 : Packet,
+    },
+    repeat Z9_ `100% of %d`,
+}")).
+Eval vm_compute in ("<<<M531>>>" ++ check (runes_of_ascii "packet
+x
+    //
+    {
+@lengthOf( f32a )
+char[] Z9_
+    ,
+    // packet A { u8 x, }
+    } root
+packet matchKey { @leftPad ( ) @lengthOf(
+    Pad )
+// c
+//
+u32 u8x// @lengthOf(
+`
+`
+,
+    @calculatedFrom( ""a	b"" ) packetx//x
+, uint8x Z9_`" ++ [233]%N ++ runes_of_ascii "`, u8
+Logon , @tag( 255 )@tag(// packet A { u8 x, }
+007 )  @lengthOf(matchKey // `tick` ""quote"" 'q'
+)
+int32 float	, } MetaData calculatedFrom{char[ 10 ]
+    BodyLength `two words` ,char[] matchKey
+    `say ""hi""`	, //	t
+int32 MetaDataX
+    // 50% %s
+    `u8 x,`//	t
+, char[ // trailing space 
+65535 ] i64_ , } options { matchKey =
+uint32 ; stringy = ""CRC32""
+    charz =	' ' ; Z9_ =  true ;}MetaData Logon { f64
+    f32a `100% of %d`
+    ,
+uint16 int`u8 x,` ,  int64
+a1	, // `tick` ""quote"" 'q'
+int64 roots `a\` ,}
+
+")).
+Eval vm_compute in ("<<<M4357>>>" ++ check (runes_of_ascii "// @lengthOf(
+root packet T {
+    //
+    @rightPad(' ')
+    @leftPad('0')
+    leftPad,
+    @leftPad()
+    int falsey,
+    @calculatedFrom(""// no comment"")
+    char[0123456789] calculatedFrom @calculatedFrom(""packet"") `" ++ [233]%N ++ runes_of_ascii "`,
+}
+
+root packet float {
+    char[4294967296] uint8x,
+    string u,
+    @lengthOf(Pad)
+    i32 lengthOf,
+    @calculatedFrom(""abc"")
+    x_y_z {
+        zchar[0] body @calculatedFrom(""1""),
+        float64 packetx @calculatedFrom("""") `crlf
+                line`,
+        match body as tag {
+            00 : chars,
+        },
+        repeat tag {
+            int8 MetaDataX `u8 x,`,
+        },
+    },
+    @tag(7)
+    string int @calculatedFrom(""it's""),// c
+    @lengthOf(Z9_)
+    zchar[42] packetx `it's`,
+}")).
+Eval vm_compute in ("<<<M4246>>>" ++ check (runes_of_ascii "root packet metadata {
+    repeat float32 roots,
+    repeat string asx,
+    string roots @lengthOf(As),
+    char[10] crc @lengthOf(roots) `{ , }`,
+    i64 Logon @calculatedFrom(""{,}""),
+    i16 options1 @calculatedFrom(""CRC32""),
+    @calculatedFrom(""abc"")
+    @calculatedFrom(""" ++ [233]%N ++ runes_of_ascii "t" ++ [233]%N ++ runes_of_ascii """)
+    zchar[65535] matchKey,
+    @rightPad('0')
+    repeat matchKey `u8 x,`,
+    repeat len,
 }
 
 options {
-    leftPad = '\x00'
-}")).
-Eval vm_compute in ("<<<M1245>>>" ++ check (runes_of_ascii "root packet matchKey { zchar[ 3 ] pack @calculatedFrom( ""a	b"" ) `doc` // c
-, } options { } MetaData A { int8 msg_type , }")).
-Eval vm_compute in ("<<<M1882>>>" ++ check (runes_of_ascii "packet A {
-    Inner {
-        u8 x `x
-        `,
-        Deep {
-            u8 y `x
-            `,
-        },
-    },
-}")).
-Eval vm_compute in ("<<<M1832>>>" ++ check (runes_of_ascii "packet
-A  {
-
-match  k
-
-    as
-    n
-
-{ [ ""a""
-	,	""bb""
-    , 007
-, ""d""	, ""e"",  66 
-] :
-    B	,
-2
-
-    :
-C
-}, }")).
-Eval vm_compute in ("<<<M47>>>" ++ check (runes_of_ascii "options
-{ options1= uint64 ;	}
-root packet /// triple
-T {MetaDataX//x
-`// not a comment` , } packet crc {}
-")).
-Eval vm_compute in ("<<<M1684>>>" ++ check (runes_of_ascii "  MetaData float {  float64 charz  `
-`
-
-,	} root packet
-	chars  {  @rightPad (
-    '0') Foo
-,
+    pack = ' ';
+    u8x = char[7];
+    i64_ = true;
+    calculatedFrom = true;
 }
 
+root packet rootA {
+    @calculatedFrom(""a\""b"")
+    @rightPad('\x00')
+    @calculatedFrom(""a\""b"")
+    char[] Pad,
+}
+
+MetaData i64_ {
+    u64 matchKey,
+    int64 Foo,
+    char[0123456789] BodyLength `
+    `,
+    tag crc,
+}")).
+Eval vm_compute in ("<<<M321>>>" ++ check (runes_of_ascii "  packet
+leftPad { @leftPad
+    ( '\x00') int32
+    stringy `it's`
 // c
-")).
-Eval vm_compute in ("<<<M884>>>" ++ check (runes_of_ascii "packet A {
-  match k as n {
-    [""a"", ""bb"", 007, ""d"", ""e"", 66, ""g"", ""h"", 9, ""j""] : B
-    2 : C
-  },
+// packet A { u8 x, }
+, body { lengthOf x_y_z `line1
+line2` ,falsey pack, asx , uint32 trueish	@lengthOf( // trailing space 
+MetaDataX
+)
+`{ , }`	, }	,  @calculatedFrom( """ ++ [128512]%N ++ runes_of_ascii """
+) falsey@lengthOf(
+f32a) `line1
+line2`
+,string u128 @calculatedFrom( ""a\""b""  )
+, i64 asx@lengthOf( u )	`line1
+line2`
+    , uint8x @calculatedFrom(""packet"" )`a\`, @calculatedFrom(""`tick`"" ) As  `it's` , @lengthOf( Z9_
+) i16 packetx , @lengthOf(BodyLength) stringy @lengthOf(
+    Header )`" ++ [233]%N ++ runes_of_ascii "`
+, } options// 50% %s
+{Foo =	""" ++ [28040; 24687]%N ++ runes_of_ascii """
+; BodyLength =
+' '
+    lengthOf =
+""a\""b"" ; stringy= ""abc""; int= false // trailing space 
 }")).
-Eval vm_compute in ("<<<M899>>>" ++ check (runes_of_ascii "packet A {
-  match k as n {
-    [1, 22, 007, 4, 5, 66, 7, 8, 9, 10, 11, 12] : B,
-    2 : C
-  },
+Eval vm_compute in ("<<<M3731>>>" ++ check (runes_of_ascii "packet repeatCount {
+    repeat uint16 msg_type,
+    match u128 as MetaDataX {
+        // c
+        [007, ""// no comment""] : string_,
+        0 : int,
+        [
+            42, ""`tick`"", 0123456789, ""\" ++ [233]%N ++ runes_of_ascii """, ""1"",
+            ""packet"", 255, ""{,}""
+        ] : crc,
+        0123456789 : rootA,
+        // packet A { u8 x, }
+        [""\n""] : charz,
+        [""packet"", 10] : T,
+    },
+}// trailing space 
+
+packet options1 {
+    @calculatedFrom(""\" ++ [233]%N ++ runes_of_ascii """)
+    char[] o `doc`,
+}
+
+packet repeatCount {
+    char[255] metadata @calculatedFrom(""`tick`""),
+    f32a {
+        u128 packetx,
+        MetaDataX msg_type,
+        char[65535] falsey `
+        `,
+    },
 }")).
-Eval vm_compute in ("<<<M882>>>" ++ check (runes_of_ascii "packet A {
-  match k as n {
-    [1, 22, ""c c"", 4, 5, ""f"", 7, 8, ""i"", 10] : B
-    2 : C
-  },
-}")).
-Eval vm_compute in ("<<<M2060>>>" ++ check (runes_of_ascii "packet x_y_z {
+Eval vm_compute in ("<<<M1069>>>" ++ check (runes_of_ascii "packet
+    //x
+    Foo{BodyLength body`" ++ [28040; 24687; 31867; 22411]%N ++ runes_of_ascii "` , match calculatedFrom as// @lengthOf(
+_x {42 ://
+zchar , },leftPad
+    // @lengthOf(
+    @calculatedFrom(""a	b"" )  `two words` , zchar[ 3] lengthOf, repeat  float64	Pad
+, repeat tag	{ char[] lengthOf `// not a comment` ,
+    Foo {  uint8x
+    roots ,
+u8x
+    @calculatedFrom(
+""`tick`"" ) // `tick` ""quote"" 'q'
+`100% of %d`
+,
+    repeat
+Packet // " ++ [27880; 37322]%N ++ runes_of_ascii "
+{ zchar[  0 ]As @calculatedFrom(
+    // c
+    """ ++ [128512]%N ++ runes_of_ascii """
+    // " ++ [128512]%N ++ runes_of_ascii " emoji
+    ), } , roots @calculatedFrom(""x y"" // 50% %s
+),} , },_x@calculatedFrom(	""`tick`""
+)
+`{ , }`, // packet A { u8 x, }
+@rightPad
+( ' ' ) uint64 x_y_z , }")).
+Eval vm_compute in ("<<<M387>>>" ++ check (runes_of_ascii "
+packet u // " ++ [27880; 37322]%N ++ runes_of_ascii "
+{ @calculatedFrom( """ ++ [28040; 24687]%N ++ runes_of_ascii """) repeat leftPad
+{
+// `tick` ""quote"" 'q'
+//x
+zchar[
+    7]
+    u
+    ,	}
+    , @calculatedFrom( ""\n"" )
+    @lengthOf(  matchKey
+    // a // b
+    )
+    BodyLength
+    @lengthOf(calculatedFrom
+    /// triple
+    ) `say ""hi""`, len
+roots`it's` , match string_ as
+    Z9_  {
+""abc"" //x
+: repeatCount // packet A { u8 x, }
+,
+//
+// c
+""abc"" :
+lengthOf  7:
+Packet , ""a\""b""  :
+    falsey
+0123456789 :
+// " ++ [128512]%N ++ runes_of_ascii " emoji
+//x
+_x , ""\" ++ [233]%N ++ runes_of_ascii """:
+    f32a	} , } MetaData u { // 50% %s
+int//	t
+uint8x `" ++ [233]%N ++ runes_of_ascii "`	, char[ 1
+] roots, char[] _x `it's` ,	BodyLength
+trueish `say ""hi""`
+    ,}")).
+Eval vm_compute in ("<<<M4446>>>" ++ check (runes_of_ascii "packet a1 {
+    @rightPad('\x00')
+    repeat string x `" ++ [28040; 24687; 31867; 22411]%N ++ runes_of_ascii "`,
+}
+
+packet i8i8 {
+    zchar[42] matchKey @calculatedFrom(""CRC32"") `it's`,
+    _x @calculatedFrom(""x y""),
+    float32 Logon @lengthOf(matchKey),
+}
+
+MetaData Foo {
+    //x
+    Foo T,
+}
+
+root packet pack {
+    //
+    @calculatedFrom(""1"")
+    Foo `" ++ [28040; 24687; 31867; 22411]%N ++ runes_of_ascii "`,
     @tag(00)
-    @tag(7)
-    @leftPad()
-    int16 _x @lengthOf(u) `it's`,
+    u64 trueish,
+    repeat leftPad float `say ""hi""`,
+    i64 u @calculatedFrom(""""),
+}
+
+MetaData o {
+    char[] i64_,
+    body BodyLength `" ++ [233]%N ++ runes_of_ascii "`,
+    string Pad `100% of %d`,
+    calculatedFrom BodyLength `say ""hi""`,
+    zchar[10] x,
+    i64 falsey,
 }")).
-Eval vm_compute in ("<<<M1204>>>" ++ check (runes_of_ascii "MetaData float { float64 charz `
-` , } root packet chars { @rightPad // c
-( '0' ) Foo , }")).
-Eval vm_compute in ("<<<M1415>>>" ++ check (runes_of_ascii "packet chars { } packet MetaDataX { @tag( 42 )
-// c
-i16 string_ , repeat x `say ""hi""` , }")).
-Eval vm_compute in ("<<<M1158>>>" ++ check (runes_of_ascii "packet metadata { Logon { A `" ++ [28040; 24687; 31867; 22411]%N ++ runes_of_ascii "` , tag o , } , zchar len `// not a comment` , } // c
+Eval vm_compute in ("<<<M412>>>" ++ check (runes_of_ascii "
+options { i64_
+=
+i32 ;
+    msg_type
+    =i64 msg_type
+    = 007 ; } root
+    packet
+string_  {@tag( 00 )
+//x
+// `tick` ""quote"" 'q'
+repeatCount i64_ , repeat
+uint32 calculatedFrom
+, // @lengthOf(
+@tag( 4294967296// a // b
+)@calculatedFrom( """" ) repeat
+char[] calculatedFrom	, } options { roots =""// no comment"";	metadata
+= int64 f32a =' ' ;
+    i64_	= ""\" ++ [233]%N ++ runes_of_ascii """} packet // @lengthOf(
+metadata//	t
+{ match
+Logon as Logon { 00 :BodyLength 10 : body 255
+: //x
+trueish , [	42, ""packet"",
+""packet"", """ ++ [233]%N ++ runes_of_ascii "t" ++ [233]%N ++ runes_of_ascii """] :
+lengthOf
+,
+} // `tick` ""quote"" 'q'
+, } 	 ")).
+Eval vm_compute in ("<<<M3797>>>" ++ check (runes_of_ascii "// top
+options {
+    // c1a
+    // c1b
+    LittleEndian = true;
+    FixedStringPadChar = '0';// c9a
+    // c9b
+}// c10
+
+packet Heartbeat {
+    zchar[5] sym,// c18a
+    // c18b
+    repeat char[3] OrderId,
+}
+
+root packet Quote {
+    u64 lastPx,
+    repeat u8 venue,
+    // c36
+    Heartbeat,// c38
+    InSym1 {
+        // c40a
+        // c40b
+        char[3] Acct,// c45a
+        // c45b
+        char[] lastPx,
+        // c48
+        Heartbeat,
+        // c50
+        repeat string x,// c54a
+        // c54b
+    },
+}
+// c57")).
+Eval vm_compute in ("<<<M139>>>" ++ check (runes_of_ascii "root  packet
+options1
+{repeat Foo { T@lengthOf( leftPad)`two words`
+    // a // b
+    ,
+    // packet A { u8 x, }
+    A,Z9_ x`tab	here` , chars
+    `a\`,
+},@calculatedFrom( ""{,}"" ) // a // b
+float32
+    // @lengthOf(
+    T `{ , }`,
+    @lengthOf(
+crc )
+    char[ 10  ]
+    float //	t
+, repeat	char[] rootA
+    , As
+`it's` ,
+i16 zchar `" ++ [233]%N ++ runes_of_ascii "` , }packet a1 { @tag( 4294967296) Header { char[] msg_type@calculatedFrom(
+    """ ++ [128512]%N ++ runes_of_ascii """	) `` , } /// triple
+, char[ 1 ]x, @leftPad (
+'0'
+    )int64 trueish
+, }")).
+Eval vm_compute in ("<<<M887>>>" ++ check (runes_of_ascii "packet uint8x{
+//	t
+// 50% %s
+@tag(  0 )repeat MetaDataX {
+match
+    tag /// triple
+as
+T {  ""packet"": i8i8 ,
+[
+    ""\n"" /// triple
+] :
+    tag ,} , repeat
+i32
+    //	t
+    trueish `say ""hi""` , }
+/// triple
+// " ++ [128512]%N ++ runes_of_ascii " emoji
+, // a // b
+}
+packet options1
+{
+match
+As as  lengthOf//x
+{ [ // 50% %s
+65535
+    , // packet A { u8 x, }
+42
+// packet A { u8 x, }
+// @lengthOf(
+,""it's""  , """ ++ [233]%N ++ runes_of_ascii "t" ++ [233]%N ++ runes_of_ascii """ ,
+    0,""1"" ]: i8i8  ,""a\""b""
+: body, 00 : MetaDataX // 50% %s
+, //x
+[00
+]// " ++ [27880; 37322]%N ++ runes_of_ascii "
+: u8x , }, }")).
+Eval vm_compute in ("<<<M415>>>" ++ check (runes_of_ascii "packet _x{uint8 repeatCount `say ""hi""`
+,
+Foo {i8	stringy
+@lengthOf( float ) ``
+//x
+// trailing space 
+,
+    uint8x `u8 x,`, repeat
+// `tick` ""quote"" 'q'
+// " ++ [128512]%N ++ runes_of_ascii " emoji
+i8i8
+// 50% %s
+//
+, // c
+As {
+    _x pack , } ,}  ,}MetaData
+    // packet A { u8 x, }
+    i8i8  { zchar[	00 // trailing space 
+] a1 `doc` // trailing space 
+, }
+options
+// 50% %s
+// " ++ [128512]%N ++ runes_of_ascii " emoji
+{ } options
+    {
+    body =	false ; x_y_z  = false ; u128=
+    int64 ;
+f32a =""it's""; //
+}
 ")).
-Eval vm_compute in ("<<<M1145>>>" ++ check (runes_of_ascii "packet metadata { Logon { A `" ++ [28040; 24687; 31867; 22411]%N ++ runes_of_ascii "` , tag o ,
+Eval vm_compute in ("<<<M3770>>>" ++ check (runes_of_ascii "
+root  packet
+
+calculatedFrom  {
+    T {match stringy  as //	t
+	  options1
+    {
+00:stringy
+
+,
+[
+    // `tick` ""quote"" 'q'
+  1 
+] : 
+f32a } 
+
+    // " ++ [128512]%N ++ runes_of_ascii " emoji
+  // trailing space 
+  ,
+string
+	int
+@lengthOf(
+    As ) ,
+repeat
+	lengthOf
+    A,}, i8 charz@calculatedFrom(
+    ""packet"" 
+), uint8	metadata 
+@calculatedFrom( 
+""packet"" )`u8 x,` //	t
+  , match  // " ++ [128512]%N ++ runes_of_ascii " emoji
+    	Packet	as
+
+    u128
+    { ""a	b"" :x, // c
+	  } ,
+    }
+")).
+Eval vm_compute in ("<<<M449>>>" ++ check (runes_of_ascii "root packet roots { } packet repeatCount
+    {f32 lengthOf ,}
+packet f32a {
+uint64
+    lengthOf @lengthOf( Foo ) ,
+    @lengthOf( As)/// triple
+@tag( 0)match chars
+// @lengthOf(
+// trailing space 
+as // a // b
+uint8x{ [ ""x y""
+, ""// no comment""	] // 50% %s
+:
+    // trailing space 
+    stringy // " ++ [27880; 37322]%N ++ runes_of_ascii "
+,[ 1 ] : A,
+""`tick`"" :
 // c
-} , zchar len `// not a comment` , }")).
-Eval vm_compute in ("<<<M1350>>>" ++ check (runes_of_ascii "packet o { repeat Logon uint8x // c
-, } options { asx = zchar[ 3 ] stringy = '\x00' }")).
-Eval vm_compute in ("<<<M838>>>" ++ check (runes_of_ascii "packet A {
-  match k as n {
-    [1, ""bb"", 007, ""d"", 5, ""f"", 7] : B,
-    2 : C
-  },
+/// triple
+metadata 10 :
+// a // b
+//
+zchar 007 :  u128, } ,	string_ , x_y_z ``, }
+")).
+Eval vm_compute in ("<<<M3443>>>" ++ check (runes_of_ascii "
+packet
+    Frame
+{	u8	HK ,  u8	BK ,
+u8	TK,  match	HK  as Hdr
+
+{ 1
+:
+    HdrA	, 2
+:HdrB
+,}
+
+,
+	match
+	BK  as
+    Body
+	{
+1: BodyA ,
+
+    2:
+
+    BodyB
+,
+
+    }  ,
+	match
+TK
+as  Trl
+
+{	1 :TrlA
+, }
+,} packet
+	HdrA
+
+{
+u8  a	,} 
+packet HdrB {u16
+
+    b
+
+,}	packet
+BodyA
+	{
+u32
+c
+
+, }
+packet
+BodyB
+{u64	d	,	}  packet 
+TrlA	{
+    u8
+	e, }
+root
+
+packet
+Msg
+
+    {
+Frame	,
+
+    u8  x,
+
+}
+")).
+Eval vm_compute in ("<<<M3654>>>" ++ check (runes_of_ascii "// " ++ [128512]%N ++ runes_of_ascii " emoji
+root packet T {
+    int16 a1,
+    tag {
+        u16 stringy,
+    },
+    MetaDataX crc,
+    i16 stringy @calculatedFrom(""x y""),
+    match int as BodyLength {
+        1 : Header,
+        [0] : tag,
+        """ ++ [28040; 24687]%N ++ runes_of_ascii """ : asx,
+        // " ++ [27880; 37322]%N ++ runes_of_ascii "
+        // trailing space 
+    },
+    @leftPad(' ')
+    metadata `it's`,
+    len @lengthOf(metadata),
+    zchar[65535] A @lengthOf(trueish),
+}//")).
+Eval vm_compute in ("<<<M3816>>>" ++ check (runes_of_ascii "// `tick` ""quote"" 'q'
+root packet zchar {
+    // @lengthOf(
+    //x
+    match packetx as u128 {
+        65535 : f32a,
+        ""abc"" : stringy,
+        ""// no comment"" : uint8x,
+        // a // b
+        [""packet""] : msg_type,
+        ""`tick`"" : BodyLength,
+        00 : stringy,
+    },
+}
+
+root packet lengthOf {
+    @calculatedFrom(""packet"")
+    char[] trueish,
 }")).
-Eval vm_compute in ("<<<M1311>>>" ++ check (runes_of_ascii "MetaData body { i64 // c
-pack `it's` , } packet stringy { int16 calculatedFrom , }")).
-Eval vm_compute in ("<<<M1585>>>" ++ check (runes_of_ascii "packet A {
+Eval vm_compute in ("<<<M4021>>>" ++ check (runes_of_ascii "// top
+packet Logon {
+    string user,// c5
+}// c6a
+
+// c6b
+root packet Frame {
+    // c10
+    u8 K,
+    // c13
+    match K as Body {
+        1 : Logon,
+        // c22
+        2 : Logout,
+        // c26
+    },
+    // c28
+    Tail,
+}
+
+packet Logout {
+    // c34
+    u16 reason,// c37
+}
+
+// c38
+packet Tail {
+    u32 crc,// c44a
+    // c44b
+}
+// c45")).
+Eval vm_compute in ("<<<M332>>>" ++ check (runes_of_ascii "MetaData Z9_
+    {//
+char[] u128/// triple
+`" ++ [28040; 24687; 31867; 22411]%N ++ runes_of_ascii "`// `tick` ""quote"" 'q'
+,	float64
+BodyLength ,roots MetaDataX `
+`,
+    packetx falsey ,
+// trailing space 
+// packet A { u8 x, }
+i16 body // `tick` ""quote"" 'q'
+,
+    f64 i64_ , } options {u8x =""x y"" ; packetx = 255
+    ; f32a	=""it's""	} packet u128{ T //	t
+@calculatedFrom(  ""a\\"" ) ,}")).
+Eval vm_compute in ("<<<M3682>>>" ++ check (runes_of_ascii "// top
+root packet trueish {
+    // c3
+}// c4
+
+MetaData x_y_z {
+    // c7
+    zchar[7] body,// c12
+    BodyLength _x,// c15
+    i8i8 As,// c18
+    i8 Foo,// c21
+}// c22
+
+packet f32a {
+    // c25
+    @lengthOf(x)
+    // c28
+    match Foo as trueish {
+        // c33
+        10 : f32a,
+        // c37
+    },// c39
+}// c40")).
+Eval vm_compute in ("<<<M3977>>>" ++ check (runes_of_ascii "
+packet x_y_z
+{@lengthOf( leftPad) float{
+int32 Header  , matchKey
+asx, 
+// " ++ [27880; 37322]%N ++ runes_of_ascii "
+  match
+metadata as
+	pack	{
+""\" ++ [233]%N ++ runes_of_ascii """ :
+packetx
+,
+
+    ""CRC32""
+	:
+    Packet
+    ,  255
+
+    // " ++ [27880; 37322]%N ++ runes_of_ascii "
+      /// triple
+	: f32a 
+""// no comment"": 
+len
+    ""// no comment"" 	 // " ++ [27880; 37322]%N ++ runes_of_ascii "
+:
+
+float  ,007
+    : Header 
+,
+
+    }  ,
+    },}
+
+")).
+Eval vm_compute in ("<<<M1253>>>" ++ check (runes_of_ascii "root// @lengthOf(
+packet tag{ }
+packet //
+MetaDataX  { lengthOf T ,@lengthOf(
+roots )
+@lengthOf( MetaDataX
+) int32 Packet , @rightPad
+    ( ' ' ) i8i8 {	char Packet @lengthOf( crc )`{ , }` , }
+// trailing space 
+// @lengthOf(
+,
+    //	t
+    @calculatedFrom(	"""" ) repeat zchar[ 255
+]i64_
+,}
+")).
+Eval vm_compute in ("<<<M3955>>>" ++ check (runes_of_ascii "  packet Foo{repeat  int16
+
+    u8x ,
+    //
+    	// packet A { u8 x, }
+
+	} 
+options
+    {
+// `tick` ""quote"" 'q'
+  //
+
+	x=  // packet A { u8 x, }
+
+  0123456789
+
+;	BodyLength
+
+    =
+	zchar[
+00 ]
+
+f32a =
+
+    false  ;
+
+    // 50% %s
+
+stringy=
+    int32 
+}
+	packet zchar{  }
+")).
+Eval vm_compute in ("<<<M4421>>>" ++ check (runes_of_ascii "  MetaData
+	pack // packet A { u8 x, }
+	  {
+	calculatedFrom
+
+    Pad ,o  f32a 
+`doc`,	char[ 0123456789] Z9_ 
+`line1
+line2`
+,
+	string  string_
+	`it's`
+
+    ,  }
+
+options
+    {
+As=	'0'  ;
+
+    x_y_z  =
+255
+;
+A  =
+
+' '  a1
+    =
+	i16
+	; zchar = 
+0
+
+}	MetaData crc {
+}")).
+Eval vm_compute in ("<<<M1537>>>" ++ check (runes_of_ascii "// 50% %s
+packet	a1
+    { zchar[
+// a // b
+// 50% %s
+007 007]
+T `it's`
+    ,@rightPad
+    // a // b
+    (
+'\x00')
+    o repeatCount , }  packet Logon {  }packet	Logon //x
+{ repeat // " ++ [128512]%N ++ runes_of_ascii " emoji
+uint16 u128
+    //
+    `a\`,
+falsey
+@calculatedFrom(""packet"" ) ,
+    } 	 ")).
+Eval vm_compute in ("<<<M1682>>>" ++ check (runes_of_ascii "// 50% %s
+packet	a1
+    { zchar[
+// a // b
+// 50% %s
+007]
+T `it's`
+    ,@rightPad
+    // a // b
+    (
+'\x00')
+    o repeatCount , }  packet Logon {  }packet	Logon //x
+{ repeat // " ++ [128512]%N ++ runes_of_ascii " emoji
+uint16 u128
+    //
+    `a\`,
+falsey
+@calculatedFrom(""packet"" ) , ,
+    } 	 ")).
+Eval vm_compute in ("<<<M1568>>>" ++ check (runes_of_ascii "// 50% %s
+packet	a1
+    { zchar[
+// a // b
+// 50% %s
+007]
+T `it's`
+    ,@rightPad
+    // a // b
+    '\x00'
+()
+    o repeatCount , }  packet Logon {  }packet	Logon //x
+{ repeat // " ++ [128512]%N ++ runes_of_ascii " emoji
+uint16 u128
+    //
+    `a\`,
+falsey
+@calculatedFrom(""packet"" ) ,
+    } 	 ")).
+Eval vm_compute in ("<<<M1546>>>" ++ check (runes_of_ascii "// 50% %s
+packet	a1
+    { zchar[
+// a // b
+// 50% %s
+007]
+ `it's`
+    ,@rightPad
+    // a // b
+    (
+'\x00')
+    o repeatCount , }  packet Logon {  }packet	Logon //x
+{ repeat // " ++ [128512]%N ++ runes_of_ascii " emoji
+uint16 u128
+    //
+    `a\`,
+falsey
+@calculatedFrom(""packet"" ) ,
+    } 	 ")).
+Eval vm_compute in ("<<<M1629>>>" ++ check (runes_of_ascii "// 50% %s
+packet	a1
+    { zchar[
+// a // b
+// 50% %s
+007]
+T `it's`
+    ,@rightPad
+    // a // b
+    (
+'\x00')
+    o repeatCount , }  packet Logon {  }packet	] //x
+{ repeat // " ++ [128512]%N ++ runes_of_ascii " emoji
+uint16 u128
+    //
+    `a\`,
+falsey
+@calculatedFrom(""packet"" ) ,
+    } 	 ")).
+Eval vm_compute in ("<<<M1671>>>" ++ check (runes_of_ascii "// 50% %s
+packet	a1
+    { zchar[
+// a // b
+// 50% %s
+007]
+T `it's`
+    ,@rightPad
+    // a // b
+    (
+'\x00')
+    o repeatCount , }  packet Logon {  }packet	Logon //x
+{ repeat // " ++ [128512]%N ++ runes_of_ascii " emoji
+uint16 u128
+    //
+    `a\`,
+falsey
+@calculatedFrom( ) ,
+    } 	 ")).
+Eval vm_compute in ("<<<M981>>>" ++ check (runes_of_ascii "packet
+    len {
+    match As  as
+f32a { ""a\\"" :
+Foo , [
+    00 , """ ++ [233]%N ++ runes_of_ascii "t" ++ [233]%N ++ runes_of_ascii """
+]
+    : Packet // " ++ [27880; 37322]%N ++ runes_of_ascii "
+,
+""abc"":i8i8,
+    42 //x
+: falsey	, //
+} , @tag( 00 ) // `tick` ""quote"" 'q'
+leftPad @lengthOf( len
+// a // b
+// " ++ [27880; 37322]%N ++ runes_of_ascii "
+) `u8 x,` , repeat
+int64 i64_ , }
+")).
+Eval vm_compute in ("<<<M3386>>>" ++ check (runes_of_ascii "// top
+options
+    // c0
+{ // c1a
+  // c1b
+FixedStringPadFromLeft = // c3
+true // c4
+; }
+    // c6
+root packet // c8
+P // c9a
+  // c9b
+{ // c10
+char[ // c11a
+  // c11b
+4 // c12
+]
+    // c13
+z
+    // c14
+, // c15a
+  // c15b
+}
+    // c16
+")).
+Eval vm_compute in ("<<<M3491>>>" ++ check (runes_of_ascii "packet Sub {
+    u8 a,
+    @calculatedFrom(""CRC16"") i16 SubSum,
+}
+root packet Frame {
+    u16 MsgType,
+    u16 BodyLen @lengthOf(Body),
+    Sub Body,
+    string note,
+    @calculatedFrom(""CRC16"") i16 Checksum,
+    u8 tail,
+}
+")).
+Eval vm_compute in ("<<<M1256>>>" ++ check (runes_of_ascii "MetaData o { char[]	Header `
+`
+    ,stringy
+    trueish
+, Logon a1
+    `line1
+line2`
+// " ++ [128512]%N ++ runes_of_ascii " emoji
+//	t
+, } root packet// a // b
+uint8x
+    { @lengthOf(zchar	)	@tag( 4294967296	)
+@leftPad ( '\x00'	)repeat BodyLength ,}
+")).
+Eval vm_compute in ("<<<M1393>>>" ++ check (runes_of_ascii "packet Header{
+    // c
+    char[
+//x
+// trailing space 
+4294967296]
+trueish @lengthOf( x_y_z )
+    `a\`
+    ,@tag( 1 ) i32// a // b
+uint8x
+`tab	here` ,
+    @tag(3 )
+repeat u8 A
+    `it's`,
+    char[]f32a, }")).
+Eval vm_compute in ("<<<M864>>>" ++ check (runes_of_ascii "packet a1 { @rightPad(
+    ) zchar[ 7 ]BodyLength
+, }MetaData repeatCount { pack calculatedFrom //	t
+,
+Header uint8x/// triple
+,string_ tag,// " ++ [27880; 37322]%N ++ runes_of_ascii "
+options1 rootA
+    //	t
+    ,} // trailing space ")).
+Eval vm_compute in ("<<<M4099>>>" ++ check (runes_of_ascii "packet calculatedFrom {
+    match _x as MetaDataX {
+        ""// no comment"" : T,
+    },
+}
+
+packet options1 {
+}
+
+packet Logon {
+    f32 falsey @calculatedFrom(""" ++ [128512]%N ++ runes_of_ascii """),
+}
+// packet A { u8 x, }")).
+Eval vm_compute in ("<<<M925>>>" ++ check (runes_of_ascii "packet
+body { repeat char[	0123456789]
+u128 `doc` ,
+    }  options {
+    chars =
+7 asx = ""abc"" T = char ;
+//	t
+// trailing space 
+a1 // `tick` ""quote"" 'q'
+= int8 tag =	""" ++ [128512]%N ++ runes_of_ascii """ ;
+}
+")).
+Eval vm_compute in ("<<<M3988>>>" ++ check (runes_of_ascii "
+root 
+packet
+T {
+
+    @leftPad// " ++ [128512]%N ++ runes_of_ascii " emoji
+(  '0'
+	)repeat
+
+leftPad  {
+
+    char[
+	3	]roots
+, } 
+,
+	}  packet
+_x
+
+{
+    int32
+    int @calculatedFrom(
+""\n"" )
+
+,
+
+}
+")).
+Eval vm_compute in ("<<<M3801>>>" ++ check (runes_of_ascii "MetaData BodyLength {
+    int8 Foo,
+    string MetaDataX,
+    float zchar,
+    string options1,
+    asx string_,
+}
+
+packet u8x {
+    Foo @lengthOf(charz) `" ++ [28040; 24687; 31867; 22411]%N ++ runes_of_ascii "`,
+}")).
+Eval vm_compute in ("<<<M4102>>>" ++ check (runes_of_ascii "packet A {
     match k as n {
-        [1, 22, ""c c""] : B,
+        [
+            1, 22, ""c c"", 4, 5,
+            ""f"", 7, 8, ""i"", 10,
+            11
+        ] : B,
         2 : C,
     },
 }")).
-Eval vm_compute in ("<<<M413>>>" ++ check (runes_of_ascii "packet
-    // `tick` ""quote"" 'q'
-    crc
-// packet A { u8 x, }
-//	t
-{
-u32 a1")).
-Eval vm_compute in ("<<<M355>>>" ++ check (runes_of_ascii "options { leftPad= int32 // packet A { u8 x, }
+Eval vm_compute in ("<<<M4168>>>" ++ check (runes_of_ascii "packet A {
+    u8 a,
 }
-// packet A { u8 x, }
-")).
-Eval vm_compute in ("<<<M1888>>>" ++ check (runes_of_ascii "  root
+
+packet B {
+    u16 b,
+}
+
+root packet P {
+    u8 K,
+    match K as M {
+        [1, 2] : A,
+        3 : B,
+        7 : A,
+    },
+}")).
+Eval vm_compute in ("<<<M3368>>>" ++ check (runes_of_ascii "// top
+root // c0
 packet P
-{ repeat
-
-string
-    ss, repeat	u16
-
-    ns
-
-,	}
+    // c2
+{ hdr // c4a
+  // c4b
+{ // c5a
+  // c5b
+u8 a
+    // c7
+,
+    // c8
+} // c9a
+  // c9b
+, // c10
+u8 // c11
+x , } ")).
+Eval vm_compute in ("<<<M2205>>>" ++ check (runes_of_ascii "MetaData BodyLength
+{ int8 Foo
+, string
+    MetaDataX , float zchar ,pack options1
+,asx string_\ , }
+packet u8x {Foo@lengthOf(charz )
+`" ++ [28040; 24687; 31867; 22411]%N ++ runes_of_ascii "`,  }
 ")).
-Eval vm_compute in ("<<<M2080>>>" ++ check (runes_of_ascii "MetaData M {
-    u8 x `a
-    
-    b`,
-    T t `a
-    
-    b`,
+Eval vm_compute in ("<<<M2048>>>" ++ check (runes_of_ascii "BodyLength MetaData
+{ int8 Foo
+, string
+    MetaDataX , float zchar ,pack options1
+,asx string_, }
+packet u8x {Foo@lengthOf(charz )
+`" ++ [28040; 24687; 31867; 22411]%N ++ runes_of_ascii "`,  }
+")).
+Eval vm_compute in ("<<<M4230>>>" ++ check (runes_of_ascii "
+packet  A{ 
+match k  as
+n {
+[
+	""a""
+, ""bb""
+,	""c c""
+
+,
+	""d"" 
+,
+	""e""
+, ""f"" ,
+""g"" ,
+
+""h"" , ""i""
+    ,
+""j"" , 
+""k""
+,	""l""
+]	:B , 2 :
+	C
+    } , 
+} ")).
+Eval vm_compute in ("<<<M2148>>>" ++ check (runes_of_ascii "MetaData BodyLength
+{ int8 Foo
+, string
+    MetaDataX , float zchar ,pack options1
+,asx string_, }
+packet ( {Foo@lengthOf(charz )
+`" ++ [28040; 24687; 31867; 22411]%N ++ runes_of_ascii "`,  }
+")).
+Eval vm_compute in ("<<<M923>>>" ++ check (runes_of_ascii "packet charz //
+{ char float , //x
+} packet float {
+    // @lengthOf(
+    zchar[ 0123456789 ] trueish
+    @lengthOf( i8i8
+) , i64 Pad  , }")).
+Eval vm_compute in ("<<<M2095>>>" ++ check (runes_of_ascii "MetaData BodyLength
+{ int8 Foo
+, string
+    MetaDataX , float  ,pack options1
+,asx string_, }
+packet u8x {Foo@lengthOf(charz )
+`" ++ [28040; 24687; 31867; 22411]%N ++ runes_of_ascii "`,  }
+")).
+Eval vm_compute in ("<<<M2254>>>" ++ check (runes_of_ascii "options
+    {
+x_y_z// " ++ [27880; 37322]%N ++ runes_of_ascii "
+= 10 ; }
+packet body { {
+    @calculatedFrom(
+// trailing space 
+// " ++ [27880; 37322]%N ++ runes_of_ascii "
+""1""
+)	match T as Foo
+    {
+255 :T , }
+,}")).
+Eval vm_compute in ("<<<M2336>>>" ++ check (runes_of_ascii "options
+    {
+x_y_z// " ++ [27880; 37322]%N ++ runes_of_ascii "
+= 10 ; }
+packet body {
+    @calculatedFrom(
+// trailing space 
+// " ++ [27880; 37322]%N ++ runes_of_ascii "
+""1""
+)	match T` as Foo
+    {
+255 :T , }
+,}")).
+Eval vm_compute in ("<<<M2008>>>" ++ check (runes_of_ascii "
+packet leftPad {
+@leftPad( '0')
+u32
+i64_ `100% of %d` ,repeat// 50% %s
+i8 chars
+    ,
+} f32a
+    MetaData
+{ // packet A { u8 x, }
 }")).
-Eval vm_compute in ("<<<M742>>>" ++ check (runes_of_ascii "char i8 false int8 match @rightPad uint32 int64 '0' zchar[")).
-Eval vm_compute in ("<<<M794>>>" ++ check (runes_of_ascii "packet A { Inner { match k as n { [1,22,007] : B, }, }, }")).
-Eval vm_compute in ("<<<M1818>>>" ++ check (runes_of_ascii "options {
-    a = ""x\
-    y"";
-    b = ""x\
-    y""
-}")).
-Eval vm_compute in ("<<<M2076>>>" ++ check (runes_of_ascii "packet A {
-    u8 x `a
-        
-        b`,
-}")).
-Eval vm_compute in ("<<<M1098>>>" ++ check (runes_of_ascii "// c
-root packet u128 { chars `it's` , }")).
-Eval vm_compute in ("<<<M1070>>>" ++ check (runes_of_ascii "MetaData M {
-}// c
-MetaData N {
-}// d")).
-Eval vm_compute in ("<<<M754>>>" ++ check (runes_of_ascii "string } zchar[ options uint64 ,")).
-Eval vm_compute in ("<<<M1028>>>" ++ check (runes_of_ascii "packet A {
- u8 x `d" ++ [11]%N ++ runes_of_ascii "`, // c" ++ [11]%N ++ runes_of_ascii "
-}")).
-Eval vm_compute in ("<<<M732>>>" ++ check ([65533; 65533]%N ++ runes_of_ascii "s" ++ [65533]%N ++ runes_of_ascii "a3" ++ [65533]%N ++ runes_of_ascii "" ++ [65533]%N ++ runes_of_ascii "J" ++ [65533; 1152; 65533]%N ++ runes_of_ascii "1" ++ [12]%N ++ runes_of_ascii "y_" ++ [65533; 65533; 65533; 65533; 65533]%N ++ runes_of_ascii "6" ++ [65533; 65533; 20]%N)).
-Eval vm_compute in ("<<<M214>>>" ++ check (runes_of_ascii "  root packet charz{}")).
-Eval vm_compute in ("<<<M972>>>" ++ check (runes_of_ascii "// c 
-packet A {
-}")).
-Eval vm_compute in ("<<<M1054>>>" ++ check (runes_of_ascii "packet A {
-}// c x")).
-Eval vm_compute in ("<<<M1066>>>" ++ check (runes_of_ascii "packet A {
+Eval vm_compute in ("<<<M2325>>>" ++ check (runes_of_ascii "options
+    {
+x_y_z// " ++ [27880; 37322]%N ++ runes_of_ascii "
+= 10 ; }
+packet body {
+    @calculatedFrom(
+// trailing space 
+// " ++ [27880; 37322]%N ++ runes_of_ascii "
+""1""
+)	match T as Foo
+    {
+255 :T , }
+},")).
+Eval vm_compute in ("<<<M2313>>>" ++ check (runes_of_ascii "options
+    {
+x_y_z// " ++ [27880; 37322]%N ++ runes_of_ascii "
+= 10 ; }
+packet body {
+    @calculatedFrom(
+// trailing space 
+// " ++ [27880; 37322]%N ++ runes_of_ascii "
+""1""
+)	match T as Foo
+    {
+255 :T  }
+,}")).
+Eval vm_compute in ("<<<M735>>>" ++ check (runes_of_ascii "options {
+A =""{,}"" ; tag = false
+// @lengthOf(
+// 50% %s
+; string_=
+    // a // b
+    '\x00' ; u
+=
+zchar[ 42
+]  string_  = ""\" ++ [233]%N ++ runes_of_ascii """
 }
+")).
+Eval vm_compute in ("<<<M1391>>>" ++ check (runes_of_ascii "
+root
+packet
+    MetaDataX {  } //x
+MetaData
+//
+//
+_x {
+// `tick` ""quote"" 'q'
+//x
+char[]
+    x
+//x
+// c
+,
+MetaDataX zchar ,  }
+")).
+Eval vm_compute in ("<<<M4468>>>" ++ check (runes_of_ascii "MetaData lengthOf {
+    len a1 `a\`,
+    As x_y_z `" ++ [28040; 24687; 31867; 22411]%N ++ runes_of_ascii "`,
+    metadata x,
+    calculatedFrom string_ `doc`,
+}// trailing space ")).
+Eval vm_compute in ("<<<M1286>>>" ++ check (runes_of_ascii "options // 50% %s
+{u128 // @lengthOf(
+= // packet A { u8 x, }
+zchar[3 ] ; body=
+""a\""b""
+    //x
+    ;  options1 =false ;	}
+")).
+Eval vm_compute in ("<<<M3695>>>" ++ check (runes_of_ascii "packet A {
+    u16 len @lengthOf(body) `
+        `,
+    u32 crc @calculatedFrom(""CRC32"") `
+        `,
+    string body,
+}")).
+Eval vm_compute in ("<<<M1242>>>" ++ check (runes_of_ascii "MetaData body
+// c
+// packet A { u8 x, }
+{tag
+    A `
+`	, i8
+    leftPad, charz roots// `tick` ""quote"" 'q'
+`a\` , }
+")).
+Eval vm_compute in ("<<<M1917>>>" ++ check (runes_of_ascii "packet o {
+    roots `it%'s`
+// trailing space 
+//x
+, char[ 42
+    ]  A, // " ++ [27880; 37322]%N ++ runes_of_ascii "
+f64
+repeatCount
+    `crlf
+line`
+,}")).
+Eval vm_compute in ("<<<M3056>>>" ++ check (runes_of_ascii "packet A {
+    u16 len @lengthOf(body) `tab
+	x`,
+    u32 crc @calculatedFrom(""CRC32"") `tab
+	x`,
+    string body,
+}")).
+Eval vm_compute in ("<<<M3516>>>" ++ check (runes_of_ascii "//	t
+packet repeatCount {
+    @tag(10)
+    int32 BodyLength @lengthOf(x_y_z),
+    a1 calculatedFrom,/// triple
+}")).
+Eval vm_compute in ("<<<M764>>>" ++ check (runes_of_ascii "MetaData
+    //x
+    stringy  { char[] A , BodyLength stringy ,
+int
+    //x
+    lengthOf , Pad crc `{ , }`, }")).
+Eval vm_compute in ("<<<M2997>>>" ++ check (runes_of_ascii "packet A {
+  match k as n {
+    [""a"", ""bb"", 007, ""d"", ""e"", 66, ""g"", ""h"", 9, ""j"", ""k""] : B
+    2 : C
+  },
+}")).
+Eval vm_compute in ("<<<M328>>>" ++ check (runes_of_ascii "options
+    { float/// triple
+=char[ 3 ]	metadata	= /// triple
+char[ 42 ]; string_=""a\\"" }
+/// triple
+")).
+Eval vm_compute in ("<<<M141>>>" ++ check (runes_of_ascii "root packet
+chars{ @rightPad
+    ( )o { roots `100% of %d` ,repeat uint64 pack
+`` ,} // " ++ [128512]%N ++ runes_of_ascii " emoji
+, }
+")).
+Eval vm_compute in ("<<<M2949>>>" ++ check (runes_of_ascii "packet A {
+  match k as n {
+    [""a"", ""bb"", ""c c"", ""d"", ""e"", ""f"", ""g"", ""h""] : B,
+    2 : C
+  },
+}")).
+Eval vm_compute in ("<<<M2134>>>" ++ check (runes_of_ascii "MetaData BodyLength
+{ int8 Foo
+, string
+    MetaDataX , float zchar ,pack options1
+,asx string_")).
+Eval vm_compute in ("<<<M1768>>>" ++ check (runes_of_ascii "options{  lengthOf =//x
+i16;
+    BodyLength = 0 ; pack
+@lengthOf( false;
+    A = char[ 3 ] }")).
+Eval vm_compute in ("<<<M1817>>>" ++ check (runes_of_ascii "options{  lengthOf =//x
+@leftpadi16;
+    BodyLength = 0 ; pack
+= false;
+    A = char[ 3 ] }")).
+Eval vm_compute in ("<<<M1190>>>" ++ check (runes_of_ascii "root packet f32a
+    {@tag( 1
+)@lengthOf( trueish	) @tag( 4294967296)
+u8x
+`{ , }`,
+    }
+")).
+Eval vm_compute in ("<<<M3360>>>" ++ check (runes_of_ascii "
+options
+{LittleEndian 
+=
+true;
 
+} root packet	P {
+	repeat
+	char cs
+
+    , u8 x ,
+    } ")).
+Eval vm_compute in ("<<<M1731>>>" ++ check (runes_of_ascii "options{  lengthOf =//x
+i16 i16;
+    BodyLength = 0 ; pack
+= false;
+    A = char[ 3 ] }")).
+Eval vm_compute in ("<<<M1716>>>" ++ check (runes_of_ascii "options{ {  lengthOf =//x
+i16;
+    BodyLength = 0 ; pack
+= false;
+    A = char[ 3 ] }")).
+Eval vm_compute in ("<<<M1737>>>" ++ check (runes_of_ascii "options{  lengthOf =//x
+i16 BodyLength
+    ; = 0 ; pack
+= false;
+    A = char[ 3 ] }")).
+Eval vm_compute in ("<<<M1782>>>" ++ check (runes_of_ascii "options{  lengthOf =//x
+i16;
+    BodyLength = 0 ; pack
+= false;
+    = A char[ 3 ] }")).
+Eval vm_compute in ("<<<M2939>>>" ++ check (runes_of_ascii "packet A {
+  match k as n {
+    [1, ""bb"", 007, ""d"", 5, ""f"", 7] : B
+    2 : C
+  },
+}")).
+Eval vm_compute in ("<<<M3417>>>" ++ check (runes_of_ascii "packet orderItem {
+    u8 a,
+}
+root packet newOrder {
+    orderItem,
+    u8 x,
+}
+")).
+Eval vm_compute in ("<<<M2929>>>" ++ check (runes_of_ascii "packet A {
+  match k as n {
+    [1, 22, ""c c"", 4, 5, ""f""] : B,
+    2 : C
+  },
+}")).
+Eval vm_compute in ("<<<M3272>>>" ++ check (runes_of_ascii "MetaData Foo { zchar[ 0 ] matchKey , } options { lengthOf = i32
+// c
+u = 00 ; }")).
+Eval vm_compute in ("<<<M1276>>>" ++ check (runes_of_ascii "options { asx = 00 ; string_ =	7 ;x_y_z
+= // trailing space 
+0123456789 ; }
+")).
+Eval vm_compute in ("<<<M3361>>>" ++ check (runes_of_ascii "packet Inner {
+    u8 a,
+}
+root packet P {
+    Inner ref_obj,
+    u8 x,
+}
+")).
+Eval vm_compute in ("<<<M4391>>>" ++ check (runes_of_ascii "packet o {
+    roots `it's`,
+    char[42] A,// " ++ [27880; 37322]%N ++ runes_of_ascii "
+    f64 repeatCount,
+}")).
+Eval vm_compute in ("<<<M1216>>>" ++ check (runes_of_ascii "
+MetaData MetaDataX
+    { u64	f32a, metadata lengthOf
+    //x
+    , }")).
+Eval vm_compute in ("<<<M2755>>>" ++ check (runes_of_ascii "true crc Pad int false char[ 65535 `it's` zchar[ @lengthOf( float64")).
+Eval vm_compute in ("<<<M2700>>>" ++ check (runes_of_ascii "@calculatedFrom( @calculatedFrom( true @leftPad true string char[")).
+Eval vm_compute in ("<<<M3998>>>" ++ check (runes_of_ascii "options {
+    rootA = false;
+    u = 0123456789;
+    i64_ = 0
+}")).
+Eval vm_compute in ("<<<M3296>>>" ++ check (runes_of_ascii "packet u8x {
+// c
+} MetaData crc { char[ 4294967296 ] Foo , }")).
+Eval vm_compute in ("<<<M3043>>>" ++ check (runes_of_ascii "packet A {
+    B b `x
+`,
+    B `x
+`,
+    repeat B bs `x
+`,
+}")).
+Eval vm_compute in ("<<<M2842>>>" ++ check (runes_of_ascii "i8 root root 10 [ [ u32 } u8 zchar[ char packet char[] u64")).
+Eval vm_compute in ("<<<M897>>>" ++ check (runes_of_ascii "
+packet body { @tag(
+255 ) int @lengthOf( float )
+,}
+")).
+Eval vm_compute in ("<<<M299>>>" ++ check (runes_of_ascii "MetaData
+i64_ {// a // b
+int16
+tag// c
+`" ++ [28040; 24687; 31867; 22411]%N ++ runes_of_ascii "` , }
 
 ")).
-Eval vm_compute in ("<<<M1035>>>" ++ check (runes_of_ascii "// c 	")).
-Eval vm_compute in ("<<<M724>>>" ++ check (runes_of_ascii "		")).
+Eval vm_compute in ("<<<M1764>>>" ++ check (runes_of_ascii "options{  lengthOf =//x
+i16;
+    BodyLength = 0 ;")).
+Eval vm_compute in ("<<<M4369>>>" ++ check (runes_of_ascii "
+
+  options
+
+{ } 
+      // packet A { u8 x, }
+")).
+Eval vm_compute in ("<<<M850>>>" ++ check (runes_of_ascii "options { matchKey
+// c
+//x
+=
+false
+;
+    }
+")).
+Eval vm_compute in ("<<<M587>>>" ++ check (runes_of_ascii "  packet x {tag// trailing space 
+,
+    }
+")).
+Eval vm_compute in ("<<<M2252>>>" ++ check (runes_of_ascii "options
+    {
+x_y_z// " ++ [27880; 37322]%N ++ runes_of_ascii "
+= 10 ; }
+packet")).
+Eval vm_compute in ("<<<M3226>>>" ++ check (runes_of_ascii "root packet u128
+// c
+{ chars `doc` , }")).
+Eval vm_compute in ("<<<M4225>>>" ++ check (runes_of_ascii "MetaData zchar {
+    zchar[007] asx,
+}")).
+Eval vm_compute in ("<<<M2388>>>" ++ check (runes_of_ascii "MetaData
+Foo {Header //
+#pack ,	} 	 ")).
+Eval vm_compute in ("<<<M2568>>>" ++ check (runes_of_ascii "packet A { repeat x @lengthOf(y), }")).
+Eval vm_compute in ("<<<M3206>>>" ++ check (runes_of_ascii "packet A { @tag( // a
+ 1 ) u8 x, }")).
+Eval vm_compute in ("<<<M2665>>>" ++ check (runes_of_ascii "options { a = 1; b = 2 c = 3;; }")).
+Eval vm_compute in ("<<<M2859>>>" ++ check (runes_of_ascii "X9" ++ [25]%N ++ runes_of_ascii "j" ++ [65533; 65533; 65533; 7; 65533; 65533]%N ++ runes_of_ascii "*" ++ [65533]%N ++ runes_of_ascii "N" ++ [65533]%N ++ runes_of_ascii "(" ++ [65533]%N ++ runes_of_ascii "(tEB" ++ [22]%N ++ runes_of_ascii "H" ++ [701; 65533; 65533; 1133]%N ++ runes_of_ascii "E" ++ [27]%N ++ runes_of_ascii "2" ++ [65533]%N ++ runes_of_ascii "D")).
+Eval vm_compute in ("<<<M3174>>>" ++ check (runes_of_ascii "packet A {
+ u8 x `d" ++ [6158]%N ++ runes_of_ascii "`, // c" ++ [6158]%N ++ runes_of_ascii "
+}")).
+Eval vm_compute in ("<<<M2698>>>" ++ check (runes_of_ascii "YB" ++ [65533]%N ++ runes_of_ascii "[" ++ [65533]%N ++ runes_of_ascii "r" ++ [65533; 18]%N ++ runes_of_ascii "in'" ++ [65533]%N ++ runes_of_ascii "|" ++ [65533]%N ++ runes_of_ascii "X(}" ++ [65533]%N ++ runes_of_ascii "/I" ++ [65533; 1083]%N ++ runes_of_ascii "V" ++ [65533]%N ++ runes_of_ascii """" ++ [65533]%N ++ runes_of_ascii "t" ++ [65533]%N)).
+Eval vm_compute in ("<<<M2746>>>" ++ check (runes_of_ascii "YpQ%cpp[Zf6R(L 6lYk ZM4G'Ou")).
+Eval vm_compute in ("<<<M811>>>" ++ check (runes_of_ascii "// trailing space 
+ // " ++ [27880; 37322]%N)).
+Eval vm_compute in ("<<<M3814>>>" ++ check (runes_of_ascii "MetaData uint8x {
+}// " ++ [27880; 37322]%N)).
+Eval vm_compute in ("<<<M2730>>>" ++ check ([21; 65533]%N ++ runes_of_ascii "jK" ++ [65533; 496; 65533]%N ++ runes_of_ascii "^" ++ [65533]%N ++ runes_of_ascii "	" ++ [8]%N ++ runes_of_ascii "K" ++ [65533]%N ++ runes_of_ascii "<" ++ [65533; 29; 65533]%N ++ runes_of_ascii "Hwe:" ++ [65533]%N)).
+Eval vm_compute in ("<<<M580>>>" ++ check (runes_of_ascii "packet MetaDataX {}
+")).
+Eval vm_compute in ("<<<M2653>>>" ++ check (runes_of_ascii "MetaData M { x y, }")).
+Eval vm_compute in ("<<<M3107>>>" ++ check (runes_of_ascii "packet A {
+}
+// c" ++ [133]%N)).
+Eval vm_compute in ("<<<M389>>>" ++ check (runes_of_ascii "options
+    { }
+
+")).
+Eval vm_compute in ("<<<M3165>>>" ++ check (runes_of_ascii "packet A {
+}// c" ++ [65279]%N)).
+Eval vm_compute in ("<<<M2574>>>" ++ check (runes_of_ascii "packet A { u8 }")).
+Eval vm_compute in ("<<<M3915>>>" ++ check (runes_of_ascii "  //x
+// c
+")).
+Eval vm_compute in ("<<<M1520>>>" ++ check (runes_of_ascii "// 50% %s
+")).
+Eval vm_compute in ("<<<M2054>>>" ++ check (runes_of_ascii "MetaData")).
+Eval vm_compute in ("<<<M2435>>>" ++ check (runes_of_ascii "char [")).
+Eval vm_compute in ("<<<M2474>>>" ++ check (runes_of_ascii "match")).
+Eval vm_compute in ("<<<M513>>>" ++ check (runes_of_ascii " //x")).
+Eval vm_compute in ("<<<M2445>>>" ++ check (runes_of_ascii "u8x")).
+Eval vm_compute in ("<<<M273>>>" ++ check (runes_of_ascii "
+")).
+Eval vm_compute in ("<<<M2564>>>" ++ check ([21517]%N)).
